@@ -255,116 +255,201 @@ Qed.
 (* layer 3: the invariant and the closed form of the provider search   *)
 (* ------------------------------------------------------------------ *)
 
-Definition cur (st : state) (c : N) : option N :=
+Lemma find_holder_some f n c :
+  find_holder f n = Some c -> f c = true /\ (N.to_nat c < n)%nat.
+Proof.
+  induction n as [|n IH]; cbn; [discriminate|].
+  destruct (find_holder f n) as [c'|] eqn:E.
+  - intro H; inversion H; subst c'. destruct (IH eq_refl). split; [assumption|lia].
+  - destruct (f (N.of_nat n)) eqn:Ef; [|discriminate].
+    intro H; inversion H; subst c. split; [exact Ef|]. rewrite Nat2N.id. lia.
+Qed.
+
+Lemma find_holder_none f n :
+  find_holder f n = None -> forall c, (N.to_nat c < n)%nat -> f c = false.
+Proof.
+  induction n as [|n IH]; cbn; intros H c Hc; [lia|].
+  destruct (find_holder f n) as [c'|] eqn:E; [discriminate|].
+  destruct (f (N.of_nat n)) eqn:Ef; [discriminate|].
+  destruct (Nat.eq_dec (N.to_nat c) n) as [<-|Hne].
+  - rewrite N2Nat.id in Ef. exact Ef.
+  - apply IH; [reflexivity|lia].
+Qed.
+
+Lemma find_holder_ext f g n :
+  (forall c, (N.to_nat c < n)%nat -> f c = g c) -> find_holder f n = find_holder g n.
+Proof.
+  induction n as [|n IH]; cbn; intro H; [reflexivity|].
+  rewrite IH by (intros c Hc; apply H; lia).
+  rewrite (H (N.of_nat n)) by (rewrite Nat2N.id; lia). reflexivity.
+Qed.
+
+Lemma node_opt_is_true o t : node_opt_is o t = true <-> o = Some t.
+Proof.
+  destruct o as [x|]; cbn; [|split; discriminate].
+  rewrite node_eqb_eq. split; congruence.
+Qed.
+
+Definition cur (st : state) (c : N) : option node :=
   let v := defined st (NC c) name_transport in
-  if is_transport T v then Some (snd v) else None.
+  if is_transport T v then Some (tnode v) else None.
+
+(* the client whose `transport` option holds transport object t *)
+Definition holder (st : state) (t : node) : option N :=
+  find_holder (fun c => node_opt_is (cur st c) t) (N.to_nat (nextc st)).
 
 (* link_invariant: a client's options are linked to exactly the options of
-   the transport object stored in its `transport` option, and a transport's
-   options are linked back to that client and to nothing else *)
+   the transport object stored in its `transport` option; that transport's
+   options are linked back to that client and to nothing else; the options of
+   a transport object no client holds (never used, or released) are linked to
+   nothing *)
 Definition INV (st : state) : Prop :=
-  (forall c, links st (NC c) = match cur st c with Some i => [NT c i] | None => [] end)
-  /\ (forall c i, links st (NT c i) =
-                  match cur st c with
-                  | Some j => if N.eqb i j then [NC c] else []
-                  | None => []
-                  end)
-  /\ (forall n, nextc st <= owner n -> getp st n = fresh T n).
+  (forall c, links st (NC c) = match cur st c with Some t => [t] | None => [] end)
+  /\ (forall c t, cur st c = Some t -> links st t = [NC c])
+  /\ (forall a i, (forall c, cur st c <> Some (NT a i)) -> links st (NT a i) = [])
+  /\ (forall n, nextc st <= owner n -> getp st n = fresh T n)
+  /\ (forall c t, cur st c = Some t -> owner t < nextc st).
+
+Lemma cur_nt st c t : cur st c = Some t -> exists a i, t = NT a i.
+Proof.
+  unfold cur. destruct (is_transport T _); [|discriminate].
+  intro H; inversion H. unfold tnode. eauto.
+Qed.
+
+Lemma assocN_prime ds name :
+  assocN name (map (fun d => (d_name d, d_default d)) ds) =
+  match find_def ds name with Some d => Some (d_default d) | None => None end.
+Proof.
+  induction ds as [|d ds IH]; cbn; [reflexivity|].
+  destruct (N.eqb name (d_name d)); [reflexivity|exact IH].
+Qed.
+
+Lemma defined_fresh st n name : getp st n = fresh T n -> defined st n name = default_of T n name.
+Proof.
+  intro H. unfold Model.defined, default_of. rewrite H. cbn [fresh p_def].
+  rewrite assocN_prime. destruct (find_def (defs_of T n) name); reflexivity.
+Qed.
+
+Lemma cur_fresh st c : getp st (NC c) = fresh T (NC c) -> cur st c = None.
+Proof.
+  intro H. unfold cur. rewrite (defined_fresh _ _ _ H). unfold default_of. cbn [defs_of].
+  destruct transport_def as [d Hd]. rewrite Hd, (transport_default_not_transport _ Hd). reflexivity.
+Qed.
+
+Lemma cur_bounded st c t : INV st -> cur st c = Some t -> c < nextc st.
+Proof.
+  intros (_ & _ & _ & If & _) H.
+  destruct (N.ltb_spec c (nextc st)) as [L|L]; [exact L|].
+  rewrite (cur_fresh st c) in H by (apply If; exact L). discriminate.
+Qed.
+
+Lemma cur_unique st c c' t : INV st -> cur st c = Some t -> cur st c' = Some t -> c = c'.
+Proof.
+  intros (_ & I2 & _) H H'. pose proof (I2 _ _ H) as A. rewrite (I2 _ _ H') in A. congruence.
+Qed.
+
+Lemma holder_cur st t c : INV st -> (holder st t = Some c <-> cur st c = Some t).
+Proof.
+  intro HI. unfold holder. split.
+  - intro H. apply find_holder_some in H as [H _]. apply node_opt_is_true. exact H.
+  - intro H. pose proof (cur_bounded _ _ _ HI H) as Hb.
+    destruct (find_holder _ _) as [c'|] eqn:E.
+    + apply find_holder_some in E as [E _]. apply node_opt_is_true in E.
+      f_equal. eapply cur_unique; eauto.
+    + assert (Hlt : (N.to_nat c < N.to_nat (nextc st))%nat) by lia.
+      pose proof (find_holder_none _ _ E c Hlt) as F. cbv beta in F.
+      rewrite H in F. cbn in F. rewrite node_eqb_refl in F. discriminate.
+Qed.
+
+Lemma holder_none st t : INV st -> holder st t = None -> forall c, cur st c <> Some t.
+Proof.
+  intros HI H c Hc. apply (holder_cur st t c HI) in Hc. congruence.
+Qed.
 
 Definition mres (st : state) (n : node) (name : N) : node :=
   if has_def T n name then n else
   match n with
   | NC c => match cur st c with
-            | Some i => if has_def T (NT c i) name then NT c i else n
+            | Some t => if has_def T t name then t else n
             | None => n
             end
-  | NT c i => match cur st c with
-              | Some j => if N.eqb i j && has_def T (NC c) name then NC c else n
+  | NT _ _ => match holder st n with
+              | Some c => if has_def T (NC c) name then NC c else n
               | None => n
               end
   end.
 
-Lemma has_def_NT c i j name : has_def T (NT c i) name = has_def T (NT c j) name.
-Proof. reflexivity. Qed.
-
 Lemma provider_simple st name n : INV st -> provider T st name n = mres st n name.
 Proof.
-  intros [Hc [Ht _]]. unfold provider, mres, FUEL.
+  intros HI. pose proof HI as (Hc & Ht & Hf & _). unfold provider, mres, FUEL.
   cbn [prov]. destruct (has_def T n name) eqn:Hd; [reflexivity|].
-  destruct n as [c | c i].
+  destruct n as [c | a i].
   - change (Model.links T st (NC c)) with (links st (NC c)). rewrite (Hc c).
-    destruct (cur st c) as [i|] eqn:Ec; [|reflexivity].
+    destruct (cur st c) as [t|] eqn:Ec; [|reflexivity].
+    destruct (cur_nt _ _ _ Ec) as (a & i & ->).
     cbn [loop_prov app mem node_eqb orb prov].
-    destruct (has_def T (NT c i) name) eqn:Hd2; [reflexivity|].
-    change (Model.links T st (NT c i)) with (links st (NT c i)). rewrite (Ht c i), Ec, N.eqb_refl.
+    destruct (has_def T (NT a i) name) eqn:Hd2; [reflexivity|].
+    change (Model.links T st (NT a i)) with (links st (NT a i)). rewrite (Ht c _ Ec).
     cbn [loop_prov app mem node_eqb orb]. rewrite N.eqb_refl. cbn. reflexivity.
-  - change (Model.links T st (NT c i)) with (links st (NT c i)). rewrite (Ht c i).
-    destruct (cur st c) as [j|] eqn:Ec; [|reflexivity].
-    destruct (N.eqb i j) eqn:Eij; [|reflexivity].
-    apply N.eqb_eq in Eij. subst j.
-    cbn [loop_prov app mem node_eqb orb prov andb].
-    destruct (has_def T (NC c) name) eqn:Hd2; [reflexivity|].
-    change (Model.links T st (NC c)) with (links st (NC c)). rewrite (Hc c), Ec.
-    cbn [loop_prov app mem node_eqb orb]. rewrite !N.eqb_refl. cbn. reflexivity.
+  - change (Model.links T st (NT a i)) with (links st (NT a i)).
+    destruct (holder st (NT a i)) as [c|] eqn:Eh.
+    + apply (holder_cur _ _ _ HI) in Eh. rewrite (Ht c _ Eh).
+      cbn [loop_prov app mem node_eqb orb prov].
+      destruct (has_def T (NC c) name) eqn:Hd2; [reflexivity|].
+      change (Model.links T st (NC c)) with (links st (NC c)). rewrite (Hc c), Eh.
+      cbn [loop_prov app mem node_eqb orb]. rewrite !N.eqb_refl. cbn. reflexivity.
+    + rewrite (Hf a i (holder_none _ _ HI Eh)). reflexivity.
 Qed.
 
 (* ------------------------------------------------------------------ *)
-(* layer 4: TpLinker.updated on a state that satisfies the invariant   *)
+(* layer 4: TpLinker.updated                                           *)
 (* ------------------------------------------------------------------ *)
 
-Definition shape (st : state) (c : N) (oc : option N) : Prop :=
-  links st (NC c) = match oc with Some i => [NT c i] | None => [] end
-  /\ forall i, links st (NT c i) =
-               match oc with Some j => if N.eqb i j then [NC c] else [] | None => [] end.
+Definition same_defs (st st' : state) : Prop :=
+  (forall n, p_def (getp st' n) = p_def (getp st n)) /\ nextc st' = nextc st.
 
-Definition same_but (st st' : state) (c : N) : Prop :=
-  (forall n, p_def (getp st' n) = p_def (getp st n))
-  /\ (forall n, owner n <> c -> getp st' n = getp st n)
-  /\ nextc st' = nextc st.
+Lemma same_defs_refl st : same_defs st st.
+Proof. split; reflexivity. Qed.
 
-Lemma same_but_refl st c : same_but st st c.
-Proof. repeat split; reflexivity. Qed.
-
-Lemma same_but_trans a b d c : same_but a b c -> same_but b d c -> same_but a d c.
+Lemma same_defs_trans a b d : same_defs a b -> same_defs b d -> same_defs a d.
 Proof.
-  intros (A1 & A2 & A3) (B1 & B2 & B3). repeat split.
-  - intro n. rewrite B1. apply A1.
-  - intros n H. rewrite B2 by exact H. apply A2. exact H.
-  - congruence.
+  intros (A1 & A2) (B1 & B2). split; [|congruence].
+  intro n. rewrite B1. apply A1.
 Qed.
 
-Lemma same_but_set_links st n l : same_but st (set_links T st n l) (owner n).
-Proof.
-  repeat split.
-  - intro m. apply pdef_set_links.
-  - intros m H. rewrite getp_set_links. rewrite node_eqb_neq; [reflexivity|].
-    intro; subst. contradiction.
-Qed.
+Lemma same_defs_set_links st n l : same_defs st (set_links T st n l).
+Proof. split; [intro m; apply pdef_set_links|reflexivity]. Qed.
 
-Lemma unlink_shape st c i0 :
-  shape st c (Some i0) ->
-  let st2 := unlink T st (NC c) (NT c i0) in
-  shape st2 c None /\ same_but st st2 c.
+Lemma getp_set_links_other st n l x : x <> n -> getp (set_links T st n l) x = getp st x.
+Proof. intro H. rewrite getp_set_links, node_eqb_neq by exact H. reflexivity. Qed.
+
+(* Properties.unlink of the transport options the client is linked to:
+   Link.teardown removes both endpoints *)
+Lemma unlink_eff st c a i :
+  links st (NC c) = [NT a i] -> links st (NT a i) = [NC c] ->
+  let st2 := unlink T st (NC c) (NT a i) in
+  links st2 (NC c) = [] /\ links st2 (NT a i) = []
+  /\ (forall x, x <> NC c -> x <> NT a i -> getp st2 x = getp st x)
+  /\ same_defs st st2.
 Proof.
-  intros [H1 H2]. unfold unlink.
+  intros H1 H2. unfold unlink.
   change (Model.links T st (NC c)) with (links st (NC c)). rewrite H1.
   cbn [fold_left]. rewrite node_eqb_refl. unfold teardown.
-  change (Model.links T st (NT c i0)) with (links st (NT c i0)).
-  rewrite (H2 i0), N.eqb_refl. cbn [mem node_eqb orb]. rewrite N.eqb_refl. cbn [orb remove_first node_eqb].
+  change (Model.links T st (NT a i)) with (links st (NT a i)).
+  rewrite H2. cbn [mem node_eqb orb]. rewrite N.eqb_refl. cbn [orb remove_first node_eqb].
   rewrite N.eqb_refl.
-  set (sa := set_links T st (NT c i0) []).
-  assert (La : Model.links T sa (NC c) = [NT c i0]).
+  set (sa := set_links T st (NT a i) []).
+  assert (La : Model.links T sa (NC c) = [NT a i]).
   { unfold sa. change (Model.links T) with links. rewrite links_set_links. cbn [node_eqb]. exact H1. }
   rewrite La. cbn [mem node_eqb orb]. rewrite !N.eqb_refl. cbn [andb orb remove_first node_eqb].
   rewrite !N.eqb_refl. cbn [andb].
-  split; [split|].
+  repeat split.
   - rewrite links_set_links, node_eqb_refl. reflexivity.
-  - intro i. rewrite links_set_links. cbn [node_eqb].
-    unfold sa. rewrite links_set_links. cbn [node_eqb]. rewrite N.eqb_refl. cbn [andb].
-    destruct (N.eqb i i0) eqn:E; [reflexivity|]. rewrite (H2 i), E. reflexivity.
-  - eapply same_but_trans.
-    + apply (same_but_set_links st (NT c i0) []).
-    + apply (same_but_set_links sa (NC c) []).
+  - rewrite links_set_links. cbn [node_eqb].
+    unfold sa. rewrite links_set_links, node_eqb_refl. reflexivity.
+  - intros x Hx1 Hx2. rewrite getp_set_links_other by exact Hx1.
+    unfold sa. apply getp_set_links_other. exact Hx2.
+  - intro n. rewrite pdef_set_links. unfold sa. apply pdef_set_links.
 Qed.
 
 Lemma reach_leaf st n : links st n = [] -> fst (reach T FUEL st n []) = [n].
@@ -373,31 +458,97 @@ Proof.
   change (Model.links T st n) with (links st n). rewrite H. cbn. reflexivity.
 Qed.
 
-Lemma link_shape st c i' :
-  shape st c None ->
-  exists st3, link T st (NC c) (NT c i') = (st3, true)
-              /\ shape st3 c (Some i') /\ same_but st st3 c.
+(* Link(client options, options of a transport object nobody holds) *)
+Lemma link_eff st c a i :
+  links st (NC c) = [] -> links st (NT a i) = [] ->
+  exists st3, link T st (NC c) (NT a i) = (st3, true)
+    /\ links st3 (NC c) = [NT a i] /\ links st3 (NT a i) = [NC c]
+    /\ (forall x, x <> NC c -> x <> NT a i -> getp st3 x = getp st x)
+    /\ same_defs st st3.
 Proof.
-  intros [H1 H2]. unfold link.
+  intros H1 H2. unfold link.
   change (Model.links T st) with (links st).
-  rewrite H1, (H2 i'). cbn [mem orb].
-  unfold domains, keys. rewrite (reach_leaf st (NC c) H1), (reach_leaf st (NT c i') (H2 i')).
+  rewrite H1, H2. cbn [mem orb].
+  unfold domains, keys. rewrite (reach_leaf st (NC c) H1), (reach_leaf st (NT a i) H2).
   cbn [map domain_of flat_map defs_of]. rewrite ddist_true. cbn [intersects existsb memN N.eqb orb].
   rewrite !app_nil_r.
   destruct tok_parts as (D & _). unfold names_of in D. rewrite D.
   eexists. split; [reflexivity|].
-  set (sa := set_links T st (NC c) ([] ++ [NT c i'])).
-  assert (La : Model.links T sa (NT c i') = []).
-  { change (Model.links T) with links. unfold sa. rewrite links_set_links. cbn [node_eqb]. apply H2. }
+  set (sa := set_links T st (NC c) ([] ++ [NT a i])).
+  assert (La : Model.links T sa (NT a i) = []).
+  { change (Model.links T) with links. unfold sa. rewrite links_set_links. cbn [node_eqb]. exact H2. }
   rewrite La. cbn [app].
-  split; [split|].
+  repeat split.
   - rewrite links_set_links. cbn [node_eqb]. unfold sa. rewrite links_set_links, node_eqb_refl. reflexivity.
-  - intro i. rewrite links_set_links. cbn [node_eqb]. rewrite N.eqb_refl. cbn [andb].
-    destruct (N.eqb i i') eqn:E; [reflexivity|].
-    unfold sa. rewrite links_set_links. cbn [node_eqb]. apply H2.
-  - eapply same_but_trans.
-    + apply (same_but_set_links st (NC c)).
-    + apply (same_but_set_links sa (NT c i')).
+  - rewrite links_set_links, node_eqb_refl. reflexivity.
+  - intros x Hx1 Hx2. rewrite getp_set_links_other by exact Hx2.
+    unfold sa. apply getp_set_links_other. exact Hx1.
+  - intro n. rewrite pdef_set_links. unfold sa. apply pdef_set_links.
+Qed.
+
+Definition tof (v : val) : option node := if is_transport T v then Some (tnode v) else None.
+
+Lemma tof_nt v t : tof v = Some t -> exists a i, t = NT a i.
+Proof. unfold tof. destruct (is_transport T v); [|discriminate]. intro H; inversion H. unfold tnode. eauto. Qed.
+
+(* the linker branch of __set: unlink the previous transport, link the new one *)
+Lemma linker_branch st1 c prev v' :
+  links st1 (NC c) = (match tof prev with Some t0 => [t0] | None => [] end) ->
+  (forall t0, tof prev = Some t0 -> links st1 t0 = [NC c]) ->
+  (forall t', tof v' = Some t' -> tof prev <> Some t' -> links st1 t' = []) ->
+  exists st3,
+    (let st2 := if is_transport T prev then unlink T st1 (NC c) (tnode prev) else st1 in
+     if is_transport T v'
+     then let '(st3, ok) := link T st2 (NC c) (tnode v') in (st3, if ok then OOk else OExc)
+     else (st2, OOk)) = (st3, OOk)
+    /\ links st3 (NC c) = (match tof v' with Some t' => [t'] | None => [] end)
+    /\ (forall t', tof v' = Some t' -> links st3 t' = [NC c])
+    /\ (forall t0, tof prev = Some t0 -> tof v' <> Some t0 -> links st3 t0 = [])
+    /\ (forall x, x <> NC c -> tof prev <> Some x -> tof v' <> Some x -> getp st3 x = getp st1 x)
+    /\ same_defs st1 st3.
+Proof.
+  intros H1 H2 H3. cbv zeta.
+  (* after the unlink *)
+  assert (U : exists st2,
+     (if is_transport T prev then unlink T st1 (NC c) (tnode prev) else st1) = st2
+     /\ links st2 (NC c) = []
+     /\ (forall t0, tof prev = Some t0 -> links st2 t0 = [])
+     /\ (forall x, x <> NC c -> tof prev <> Some x -> getp st2 x = getp st1 x)
+     /\ same_defs st1 st2).
+  { unfold tof in *. destruct (is_transport T prev) eqn:Ep.
+    - unfold tnode in *. set (a := snd prev / TW) in *. set (i := snd prev mod TW) in *.
+      destruct (unlink_eff st1 c a i H1 (H2 _ eq_refl)) as (A & B & C & D).
+      eexists. split; [reflexivity|]. repeat split; try assumption; try apply D.
+      + intros t0 E. inversion E; subst. exact B.
+      + intros x Hx Hn. apply C; [exact Hx|]. intro; subst x. apply Hn. reflexivity.
+    - exists st1. repeat split; try assumption; try reflexivity. intros t0 E. discriminate. }
+  destruct U as (st2 & E2 & L2 & F2 & G2 & D2). rewrite E2. clear E2.
+  unfold tof in *. destruct (is_transport T v') eqn:Ev.
+  - unfold tnode in H3 |- *. set (a := snd v' / TW) in *. set (i := snd v' mod TW) in *.
+    assert (Lt : links st2 (NT a i) = []).
+    { destruct (is_transport T prev) eqn:Ep.
+      - destruct (node_dec (tnode prev) (NT a i)) as [E|E].
+        + apply F2. rewrite E. reflexivity.
+        + unfold Model.links. rewrite G2.
+          * apply (H3 _ eq_refl). unfold tnode in E. congruence.
+          * discriminate.
+          * congruence.
+      - unfold Model.links. rewrite G2; [apply (H3 _ eq_refl)| |]; discriminate. }
+    destruct (link_eff st2 c a i L2 Lt) as (st3 & E3 & A & B & C & D).
+    exists st3. rewrite E3. repeat split; try assumption.
+    + intros t' E. inversion E; subst. exact B.
+    + intros t0 E Hn. unfold Model.links. rewrite C.
+      * apply F2. exact E.
+      * destruct (is_transport T prev); [|discriminate]. inversion E. unfold tnode. discriminate.
+      * intro; subst t0. apply Hn. reflexivity.
+    + intros x Hx Hp Hv. rewrite C; [apply G2; assumption|exact Hx|].
+      intro; subst x. apply Hv. reflexivity.
+    + intro n. destruct D as [D _]. destruct D2 as [D2 _]. rewrite D. apply D2.
+    + destruct D as [_ D]. destruct D2 as [_ D2]. congruence.
+  - exists st2. repeat split; try assumption; try apply D2.
+    + intros t' E. discriminate.
+    + intros t0 E _. apply F2. exact E.
+    + intros x Hx Hp _. apply G2; assumption.
 Qed.
 
 (* ------------------------------------------------------------------ *)
@@ -414,29 +565,35 @@ Proof. unfold has_def; cbn. destruct transport_def as [d H]. rewrite H. reflexiv
 Lemma cur_R st ss c : R st ss -> cur st c = s_cur T ss c.
 Proof. intros [_ H]. unfold cur, s_cur. rewrite (H _ _ (has_transport c)). reflexivity. Qed.
 
+Lemma holder_R st ss t : R st ss -> holder st t = s_holder T ss t.
+Proof.
+  intro HR. unfold holder, s_holder. destruct HR as [Hn Hv]. rewrite Hn.
+  apply find_holder_ext. intros c _. rewrite (cur_R st ss c); [reflexivity|split; assumption].
+Qed.
+
 Lemma resolve_mres st ss n name :
   R st ss ->
   resolve T ss n name = if has_def T (mres st n name) name then Some (mres st n name) else None.
 Proof.
   intro HR. unfold resolve, mres.
   destruct (has_def T n name) eqn:Hd; [rewrite Hd; reflexivity|].
-  destruct n as [c|c i]; rewrite <- (cur_R _ _ c HR); destruct (cur st c) as [j|]; try (rewrite Hd; reflexivity).
-  - destruct (has_def T (NT c j) name) eqn:H2; [rewrite H2|rewrite Hd]; reflexivity.
-  - destruct (N.eqb i j && has_def T (NC c) name) eqn:H2.
-    + apply andb_true_iff in H2 as [_ H2]. rewrite H2. reflexivity.
-    + rewrite Hd. reflexivity.
+  destruct n as [c|a i].
+  - rewrite <- (cur_R _ _ c HR). destruct (cur st c) as [t|]; [|rewrite Hd; reflexivity].
+    destruct (has_def T t name) eqn:H2; [rewrite H2|rewrite Hd]; reflexivity.
+  - rewrite <- (holder_R _ _ _ HR). destruct (holder st (NT a i)) as [c|]; [|rewrite Hd; reflexivity].
+    destruct (has_def T (NC c) name) eqn:H2; [rewrite H2|rewrite Hd]; reflexivity.
 Qed.
 
-Lemma owner_mres st n name : owner (mres st n name) = owner n.
+Lemma owner_mres_lt st n name : INV st -> owner n < nextc st -> owner (mres st n name) < nextc st.
 Proof.
-  unfold mres. destruct (has_def T n name); [reflexivity|].
-  destruct n as [c|c i]; destruct (cur st c) as [j|]; try reflexivity.
-  - destruct (has_def T (NT c j) name); reflexivity.
-  - destruct (N.eqb i j && has_def T (NC c) name); reflexivity.
+  intros HI Hn. unfold mres. destruct (has_def T n name); [exact Hn|].
+  destruct n as [c|a i].
+  - destruct (cur st c) as [t|] eqn:Ec; [|exact Hn].
+    destruct (has_def T t name); [|exact Hn]. destruct HI as (_ & _ & _ & _ & I5). eapply I5; eauto.
+  - destruct (holder st (NT a i)) as [c|] eqn:Eh; [|exact Hn].
+    destruct (has_def T (NC c) name); [|exact Hn].
+    apply (holder_cur _ _ _ HI) in Eh. cbn. eapply cur_bounded; eauto.
 Qed.
-
-Lemma INV_shape st c : INV st -> shape st c (cur st c).
-Proof. intros (Hc & Ht & _). split; [apply Hc|intro i; apply Ht]. Qed.
 
 Lemma defined_ext st st' n name :
   p_def (getp st' n) = p_def (getp st n) -> defined st' n name = defined st n name.
@@ -465,127 +622,195 @@ Qed.
 Lemma snext_sput ss n name v : s_next (sput ss n name v) = s_next ss.
 Proof. reflexivity. Qed.
 
-(* the effect of the linker branch of __set *)
-Lemma relink st c oc v' :
-  shape st c oc ->
-  let st2 := match oc with Some i0 => unlink T st (NC c) (NT c i0) | None => st end in
-  exists st3 ok,
-    (if is_transport T v' then link T st2 (NC c) (NT c (snd v')) else (st2, true)) = (st3, ok)
-    /\ ok = true
-    /\ shape st3 c (if is_transport T v' then Some (snd v') else None)
-    /\ same_but st st3 c.
-Proof.
-  intros Hs st2.
-  assert (H2 : shape st2 c None /\ same_but st st2 c).
-  { unfold st2. destruct oc as [i0|].
-    - apply unlink_shape. exact Hs.
-    - split; [exact Hs|apply same_but_refl]. }
-  destruct H2 as [Hs2 Hb2].
-  destruct (is_transport T v').
-  - destruct (link_shape st2 c (snd v') Hs2) as (st3 & E & Hs3 & Hb3).
-    exists st3, true. repeat split; try assumption; try apply Hs3.
-    + eapply same_but_trans; eauto.
-    + destruct Hb2 as (_ & X & _). destruct Hb3 as (_ & Y & _).
-      intros n Hn. rewrite Y by exact Hn. apply X. exact Hn.
-    + destruct Hb2 as (_ & _ & X). destruct Hb3 as (_ & _ & Y). congruence.
-  - exists st2, true. repeat split; try assumption; try apply Hs2; apply Hb2.
-Qed.
-
-Lemma linker_branch st1 c prev v' :
-  shape st1 c (if is_transport T prev then Some (snd prev) else None) ->
-  exists st3,
-    (let st2 := if is_transport T prev then unlink T st1 (NC c) (NT c (snd prev)) else st1 in
-     if is_transport T v'
-     then let '(st3, ok) := link T st2 (NC c) (NT c (snd v')) in (st3, if ok then OOk else OExc)
-     else (st2, OOk)) = (st3, OOk)
-    /\ shape st3 c (if is_transport T v' then Some (snd v') else None)
-    /\ same_but st1 st3 c.
-Proof.
-  intro Hs.
-  destruct (relink st1 c _ v' Hs) as (st3 & ok & E & Hok & Hs3 & Hb3). subst ok.
-  exists st3. cbv zeta.
-  destruct (is_transport T prev); destruct (is_transport T v').
-  - rewrite E. auto.
-  - inversion E; subst. auto.
-  - rewrite E. auto.
-  - inversion E; subst. auto.
-Qed.
-
 Lemma R_set_defined st ss p name v st' :
-  R st ss -> same_but (set_defined T st p name v) st' (owner p) ->
+  R st ss -> same_defs (set_defined T st p name v) st' ->
   R st' (sput ss p name v).
 Proof.
-  intros [Hn Hv] (B1 & _ & B3). split.
+  intros [Hn Hv] (B1 & B3). split.
   - rewrite B3. exact Hn.
   - intros m nm Hd. rewrite (defined_ext _ _ _ _ (B1 m)).
     rewrite defined_set_defined, sval_sput. destruct (node_eqb m p && N.eqb nm name); [reflexivity|].
     apply Hv. exact Hd.
 Qed.
 
+Lemma tof_not_client v c : tof v <> Some (NC c).
+Proof. unfold tof. destruct (is_transport T v); [|discriminate]. unfold tnode. discriminate. Qed.
+
+Lemma nvl_transport d v :
+  find_def (cdefs T) name_transport = Some d -> is_transport T (nvl d v) = true ->
+  nvl d v = v /\ is_transport T v = true.
+Proof.
+  intros Hd H. unfold nvl in *. destruct (is_none v).
+  - rewrite (transport_default_not_transport _ Hd) in H. discriminate.
+  - auto.
+Qed.
+
+(* nobody but client c holds the transport object named by v *)
+Definition free_for (st : state) (c : N) (v : val) : Prop :=
+  forall c1, cur st c1 = Some (tnode v) -> c1 = c.
+
+Lemma shares_free st ss n v c :
+  INV st -> R st ss ->
+  mres st n name_transport = NC c ->
+  shares T ss (St n name_transport v) = false -> is_transport T v = true ->
+  free_for st c v.
+Proof.
+  intros HI HR Hm Hs Hv c1 Hc1. unfold shares in Hs.
+  rewrite N.eqb_refl, Hv, (resolve_mres st ss n name_transport HR), Hm, has_transport in Hs.
+  cbn [andb] in Hs. rewrite <- (holder_R st ss _ HR) in Hs.
+  apply (holder_cur _ _ _ HI) in Hc1. rewrite Hc1 in Hs.
+  apply negb_false_iff, N.eqb_eq in Hs. congruence.
+Qed.
+
+(* assigning the `transport` option of client c *)
+Lemma set_transport_inv st c d v st' o :
+  INV st -> c < nextc st ->
+  find_def (cdefs T) name_transport = Some d -> validate T d v = true ->
+  vexists T st v = true -> (is_transport T v = true -> free_for st c v) ->
+  pset T st (NC c) name_transport v = (st', o) ->
+  o = OOk /\ INV st' /\ same_defs (set_defined T st (NC c) name_transport (nvl d v)) st'.
+Proof.
+  intros HI Hc Hd Hval Hex Hfree. unfold pset. cbn [defs_of]. rewrite Hd, Hval. cbn [negb].
+  pose proof (cdef_linker _ _ Hd) as Hl. rewrite N.eqb_refl in Hl. rewrite Hl.
+  set (v' := nvl d v).
+  set (st1 := set_defined T st (NC c) name_transport v').
+  change (Model.defined T st (NC c) name_transport) with (defined st (NC c) name_transport).
+  set (prev := defined st (NC c) name_transport).
+  assert (Hprev : tof prev = cur st c) by reflexivity.
+  pose proof HI as (I1 & I2 & I3 & I4 & I5).
+  (* the new transport, when there is one, is v itself, exists, and is free for c *)
+  assert (Hnew : forall t', tof v' = Some t' ->
+                 owner t' < nextc st /\ (forall c1, cur st c1 = Some t' -> c1 = c)).
+  { intros t' E. unfold tof in E. destruct (is_transport T v') eqn:Ev; [|discriminate].
+    destruct (nvl_transport d v Hd Ev) as [Ev1 Ev2]. fold v' in Ev1. inversion E; subst t'. rewrite Ev1.
+    split.
+    - unfold vexists in Hex. rewrite Ev2 in Hex. cbn in Hex. apply N.ltb_lt. exact Hex.
+    - apply Hfree. exact Ev2. }
+  destruct (linker_branch st1 c prev v') as (st3 & E & L1 & L2 & L3 & L4 & D).
+  { unfold st1. rewrite links_set_defined, Hprev. apply I1. }
+  { intros t0 E0. unfold st1. rewrite links_set_defined. apply (I2 c). congruence. }
+  { intros t' E' Hne. unfold st1. rewrite links_set_defined.
+    destruct (tof_nt _ _ E') as (a & i & ->). apply I3. intros c1 Hc1.
+    destruct (Hnew _ E') as [_ F]. rewrite (F c1 Hc1) in Hc1. congruence. }
+  cbv zeta in E. fold st1. rewrite E. intro H; inversion H; subst st' o; clear H.
+  split; [reflexivity|]. split; [|exact D].
+  destruct D as (B1 & B3).
+  assert (Hcur : forall c1, cur st3 c1 = if N.eqb c1 c then tof v' else cur st c1).
+  { intro c1. unfold cur at 1. rewrite (defined_ext _ _ _ _ (B1 (NC c1))). unfold st1.
+    rewrite defined_set_defined. cbn [node_eqb]. rewrite N.eqb_refl, andb_true_r.
+    destruct (N.eqb c1 c); reflexivity. }
+  assert (Hst1 : forall x, x <> NC c -> getp st1 x = getp st x).
+  { intros x Hx. unfold st1. rewrite getp_set_defined, node_eqb_neq by exact Hx. reflexivity. }
+  split; [|split; [|split; [|split]]].
+  - (* I1 *)
+    intro c1. rewrite Hcur. destruct (N.eqb c1 c) eqn:Ec.
+    + apply N.eqb_eq in Ec. subst c1. exact L1.
+    + apply N.eqb_neq in Ec. unfold Model.links. rewrite L4, Hst1; try congruence.
+      * apply I1.
+      * apply tof_not_client.
+      * apply tof_not_client.
+  - (* I2a *)
+    intros c1 t Ht. rewrite Hcur in Ht. destruct (N.eqb c1 c) eqn:Ec.
+    + apply N.eqb_eq in Ec. subst c1. apply L2. exact Ht.
+    + apply N.eqb_neq in Ec. destruct (cur_nt _ _ _ Ht) as (a & i & ->).
+      unfold Model.links. rewrite L4, Hst1; try discriminate.
+      * apply (I2 c1). exact Ht.
+      * rewrite Hprev. intro X. apply Ec. eapply cur_unique; eauto.
+      * intro X. destruct (Hnew _ X) as [_ F]. apply Ec. apply F. exact Ht.
+  - (* I2b *)
+    intros a i Hno.
+    assert (Hv : tof v' <> Some (NT a i)).
+    { intro X. apply (Hno c). rewrite Hcur, N.eqb_refl. exact X. }
+    destruct (node_dec (NT a i) (tnode prev)) as [Ep|Ep].
+    + destruct (is_transport T prev) eqn:Et.
+      * apply L3; [unfold tof; rewrite Et; congruence|exact Hv].
+      * (* the previous value was not a transport: untouched *)
+        unfold Model.links. rewrite L4, Hst1; try discriminate; try exact Hv.
+        -- apply I3. intros c1 Hc1. destruct (N.eq_dec c1 c) as [->|Hne].
+           ++ rewrite <- Hprev in Hc1. unfold tof in Hc1. rewrite Et in Hc1. discriminate.
+           ++ apply (Hno c1). rewrite Hcur. apply N.eqb_neq in Hne. rewrite Hne. exact Hc1.
+        -- unfold tof. rewrite Et. discriminate.
+    + destruct (tof prev) as [t0|] eqn:Et0.
+      * assert (t0 <> NT a i).
+        { unfold tof in Et0. destruct (is_transport T prev); [|discriminate]. congruence. }
+        unfold Model.links. rewrite L4, Hst1; try discriminate; try exact Hv; try congruence.
+        apply I3. intros c1 Hc1. destruct (N.eq_dec c1 c) as [->|Hne].
+        -- rewrite <- Hprev in Hc1. congruence.
+        -- apply (Hno c1). rewrite Hcur. apply N.eqb_neq in Hne. rewrite Hne. exact Hc1.
+      * unfold Model.links. rewrite L4, Hst1; try discriminate; try exact Hv.
+        apply I3. intros c1 Hc1. destruct (N.eq_dec c1 c) as [->|Hne].
+        -- rewrite <- Hprev in Hc1. congruence.
+        -- apply (Hno c1). rewrite Hcur. apply N.eqb_neq in Hne. rewrite Hne. exact Hc1.
+  - (* I4 *)
+    intros n Hn. rewrite B3 in Hn. cbn [nextc st1 set_defined setp] in Hn.
+    rewrite L4, Hst1.
+    + apply I4. exact Hn.
+    + intro; subst n. cbn in Hn. lia.
+    + intro; subst n. cbn in Hn. lia.
+    + rewrite Hprev. intro X. pose proof (I5 _ _ X). lia.
+    + intro X. destruct (Hnew _ X). lia.
+  - (* I5 *)
+    intros c1 t Ht. rewrite B3. cbn [nextc st1 set_defined setp].
+    rewrite Hcur in Ht. destruct (N.eqb c1 c).
+    + apply (Hnew _ Ht).
+    + eapply I5; eauto.
+Qed.
+
+(* assigning any other option *)
+Lemma set_other_inv st p name d v :
+  INV st -> owner p < nextc st ->
+  find_def (defs_of T p) name = Some d -> d_linker d = false ->
+  INV (set_defined T st p name v).
+Proof.
+  intros (I1 & I2 & I3 & I4 & I5) Hp Ed El.
+  assert (Hcur : forall c', cur (set_defined T st p name v) c' = cur st c').
+  { intro c'. unfold cur. rewrite defined_set_defined.
+    destruct (node_eqb (NC c') p && N.eqb name_transport name) eqn:E; [|reflexivity].
+    apply andb_true_iff in E as [E1 E2]. apply node_eqb_eq in E1. apply N.eqb_eq in E2.
+    subst name. rewrite <- E1 in Ed. cbn [defs_of] in Ed.
+    rewrite (cdef_linker _ _ Ed), N.eqb_refl in El. discriminate. }
+  split; [|split; [|split; [|split]]].
+  - intro c'. rewrite Hcur, links_set_defined. apply I1.
+  - intros c' t Ht. rewrite Hcur in Ht. rewrite links_set_defined. eapply I2; eauto.
+  - intros a i Hno. rewrite links_set_defined. apply I3. intros c1. rewrite <- Hcur. apply Hno.
+  - intros m Hm. cbn [nextc set_defined setp] in Hm. rewrite getp_set_defined.
+    rewrite node_eqb_neq; [apply I4; exact Hm|]. intro; subst m. lia.
+  - intros c1 t Ht. rewrite Hcur in Ht. cbn [nextc set_defined setp]. eapply I5; eauto.
+Qed.
+
 Lemma set_refine st ss n name v st' o :
-  INV st -> R st ss -> owner n < nextc st ->
+  INV st -> R st ss -> owner n < nextc st -> vexists T st v = true ->
+  shares T ss (St n name v) = false ->
   pset T st (provider T st name n) name v = (st', o) ->
   exists ss', sset T false ss n name v = (ss', o) /\ INV st' /\ R st' ss'.
 Proof.
-  intros HI HR Hex. rewrite (provider_simple _ _ _ HI).
+  intros HI HR Hex Hvx Hsh. rewrite (provider_simple _ _ _ HI).
   unfold sset. rewrite (resolve_mres st ss n name HR).
-  pose proof (owner_mres st n name) as Hown.
-  set (p := mres st n name) in *.
-  unfold pset, has_def.
-  destruct (find_def (defs_of T p) name) as [d|] eqn:Ed; cbv beta iota; rewrite ?Ed.
-  2:{ intro H. inversion H; subst. exists ss. auto. }
+  pose proof (owner_mres_lt st n name HI Hex) as Hown.
+  destruct (has_def T (mres st n name) name) eqn:Hhd.
+  2:{ unfold pset. unfold has_def in Hhd. destruct (find_def (defs_of T (mres st n name)) name); [discriminate|].
+      intro H; inversion H; subst. exists ss. auto. }
+  remember (mres st n name) as p eqn:Ep.
+  destruct (find_def (defs_of T p) name) as [d|] eqn:Ed.
+  2:{ unfold has_def in Hhd. rewrite Ed in Hhd. discriminate. }
   destruct (validate T d v) eqn:Ev; cbn [negb].
-  2:{ intro H. inversion H; subst. exists ss. auto. }
-  set (v' := nvl d v).
+  2:{ unfold pset. rewrite Ed, Ev. cbn [negb]. intro H; inversion H; subst. exists ss. auto. }
   destruct (d_linker d) eqn:El.
   - (* the transport option: TpLinker.updated *)
-    destruct p as [c|c i] eqn:Ep; [|rewrite (tdef_no_linker _ _ Ed) in El; discriminate].
+    destruct p as [c|a i]; [|rewrite (tdef_no_linker _ _ Ed) in El; discriminate].
     pose proof (cdef_linker _ _ Ed) as Hl. rewrite El in Hl. symmetry in Hl.
-    apply N.eqb_eq in Hl. subst name. cbn [owner] in *.
-    set (st1 := set_defined T st (NC c) name_transport v').
-    assert (Hs1 : shape st1 c (cur st c)).
-    { destruct (INV_shape st c HI) as [A B]. split.
-      - unfold st1. rewrite links_set_defined. exact A.
-      - intro i. unfold st1. rewrite links_set_defined. apply B. }
-    destruct (linker_branch st1 c (defined st (NC c) name_transport) v' Hs1) as (st3 & E & Hs3 & Hb3).
-    fold st1. change (Model.defined T st (NC c) name_transport) with (defined st (NC c) name_transport).
-    cbv zeta in E. rewrite E. intro H; inversion H; subst st' o; clear H.
-    all: eexists; (split; [reflexivity|]).
-    all: (split; [|apply (R_set_defined st ss (NC c) name_transport v'); assumption]).
-    all: destruct Hb3 as (B1 & B2 & B3); destruct HI as (Ic & It & If).
-    all: assert (Hcur : forall c', cur st3 c' = if N.eqb c' c then (if is_transport T v' then Some (snd v') else None) else cur st c')
-      by (intro c'; unfold cur at 1; rewrite (defined_ext _ _ _ _ (B1 (NC c'))); unfold st1;
-          rewrite defined_set_defined; cbn [node_eqb]; rewrite N.eqb_refl, andb_true_r;
-          destruct (N.eqb c' c); reflexivity).
-    all: split; [|split].
-    all: try (intro c'; rewrite Hcur; destruct (N.eqb c' c) eqn:Ec;
-              [apply N.eqb_eq in Ec; subst c'; apply Hs3
-              |apply N.eqb_neq in Ec; rewrite (links_ext _ _ _ (B2 (NC c') Ec));
-               unfold st1; rewrite links_set_defined; apply Ic]).
-    all: try (intros c' i; rewrite Hcur; destruct (N.eqb c' c) eqn:Ec;
-              [apply N.eqb_eq in Ec; subst c'; apply Hs3
-              |apply N.eqb_neq in Ec; rewrite (links_ext _ _ _ (B2 (NT c' i) Ec));
-               unfold st1; rewrite links_set_defined; apply It]).
-    all: intros m Hm; rewrite B3 in Hm; cbn [nextc st1 set_defined setp] in Hm;
-         assert (owner m <> c) by lia;
-         rewrite (B2 m) by assumption; unfold st1; rewrite getp_set_defined;
-         rewrite node_eqb_neq; [apply If; exact Hm|intro; subst m; cbn in *; lia].
+    apply N.eqb_eq in Hl. subst name. cbn [owner defs_of] in *.
+    intro E.
+    destruct (set_transport_inv st c d v st' o HI Hown Ed Ev Hvx) as (Ho & HI' & D); [|exact E|].
+    { intro Hv. eapply shares_free; eauto. }
+    subst o. eexists. split; [reflexivity|]. split; [exact HI'|].
+    apply (R_set_defined st ss (NC c) name_transport (nvl d v)); assumption.
   - (* any other option *)
+    unfold pset. rewrite Ed, Ev, El. cbn [negb].
     intro H; inversion H; subst st' o; clear H.
-    eexists; split; [reflexivity|].
-    split; [|apply (R_set_defined st ss p name v'); [exact HR|subst p; apply same_but_refl]].
-    destruct HI as (Ic & It & If).
-    assert (Hcur : forall c', cur (set_defined T st p name v') c' = cur st c').
-    { intro c'. unfold cur. rewrite defined_set_defined.
-      destruct (node_eqb (NC c') p && N.eqb name_transport name) eqn:E; [|reflexivity].
-      apply andb_true_iff in E as [E1 E2]. apply node_eqb_eq in E1. apply N.eqb_eq in E2.
-      subst name. rewrite <- E1 in Ed. cbn [defs_of] in Ed.
-      rewrite (cdef_linker _ _ Ed), N.eqb_refl in El. discriminate. }
-    split; [|split].
-    + intro c'. rewrite Hcur, links_set_defined. apply Ic.
-    + intros c' i. rewrite Hcur, links_set_defined. apply It.
-    + intros m Hm. cbn [nextc set_defined setp] in Hm. rewrite getp_set_defined.
-      rewrite node_eqb_neq; [apply If; exact Hm|]. intro; subst m. lia.
+    eexists; split; [reflexivity|]. split.
+    + eapply set_other_inv; eauto.
+    + apply (R_set_defined st ss p name (nvl d v)); [exact HR|apply same_defs_refl].
 Qed.
 
 (* ------------------------------------------------------------------ *)
@@ -600,28 +825,17 @@ Proof.
   destruct HR as [_ Hv]. rewrite Hv; [reflexivity|]. unfold has_def. rewrite Ed. reflexivity.
 Qed.
 
+Lemma tuse_refine st ss t tag : INV st -> R st ss -> tuse T st t tag = stuse T ss t tag.
+Proof. intros HI HR. unfold tuse, stuse. rewrite !(get_refine st ss _ _ HI HR). reflexivity. Qed.
+
 Lemma use_refine st ss c : INV st -> R st ss -> use T st c = suse T ss c.
 Proof.
   intros HI HR. unfold use, suse.
   rewrite !(get_refine st ss _ _ HI HR).
   assert (E : sget T ss (NC c) name_transport = OVal (sval T ss (NC c) name_transport)).
   { unfold sget, resolve. rewrite has_transport. reflexivity. }
-  rewrite E. unfold s_cur. destruct (is_transport T (sval T ss (NC c) name_transport));
-    rewrite ?(get_refine st ss _ _ HI HR); reflexivity.
-Qed.
-
-Lemma assocN_prime ds name :
-  assocN name (map (fun d => (d_name d, d_default d)) ds) =
-  match find_def ds name with Some d => Some (d_default d) | None => None end.
-Proof.
-  induction ds as [|d ds IH]; cbn; [reflexivity|].
-  destruct (N.eqb name (d_name d)); [reflexivity|exact IH].
-Qed.
-
-Lemma defined_fresh st n name : getp st n = fresh T n -> defined st n name = default_of T n name.
-Proof.
-  intro H. unfold Model.defined, default_of. rewrite H. cbn [fresh p_def].
-  rewrite assocN_prime. destruct (find_def (defs_of T n) name); reflexivity.
+  rewrite E. destruct (is_transport T (sval T ss (NC c) name_transport)); [|reflexivity].
+  rewrite (tuse_refine st ss _ _ HI HR). reflexivity.
 Qed.
 
 Lemma has_def_memN n name : has_def T n name = memN name (names_of (defs_of T n)).
@@ -651,93 +865,157 @@ Lemma snext_fold ds N0 (f : N -> val) s0 :
   s_next (fold_left (fun s d => sput s N0 (d_name d) (f (d_name d))) ds s0) = s_next s0.
 Proof. revert s0. induction ds as [|d ds IH]; intro s0; cbn; [reflexivity|]. rewrite IH. reflexivity. Qed.
 
+(* the three kinds of node after clone *)
 Lemma getp_clone st c m :
   getp (clone T st c) m =
   let tv := defined st (NC c) name_transport in
   let k := nextc st in
-  if is_transport T tv && node_eqb m (NT k (snd tv))
-  then mkP (p_def (getp st (NT c (snd tv)))) [NC k]
-  else if node_eqb m (NC k)
-       then mkP (p_def (getp st (NC c))) (if is_transport T tv then [NT k (snd tv)] else [])
-       else getp st m.
+  if is_transport T tv
+  then if node_eqb m (NT k (tidx (tnode tv)))
+       then mkP (p_def (getp st (tnode tv))) [NC k]
+       else if node_eqb m (NC k)
+            then mkP (updN name_transport (fst tv, tid k (tidx (tnode tv))) (p_def (getp st (NC c))))
+                     [NT k (tidx (tnode tv))]
+            else getp st m
+  else if node_eqb m (NC k) then mkP (p_def (getp st (NC c))) [] else getp st m.
 Proof.
   unfold clone. cbv zeta.
   change (Model.defined T st (NC c) name_transport) with (defined st (NC c) name_transport).
   set (tv := defined st (NC c) name_transport). set (k := nextc st).
-  destruct (is_transport T tv); cbn [andb].
-  - unfold Model.getp at 1. cbn [nodes].
-    change (match assoc m (nodes (setp (setp st (NC k) _) (NT k (snd tv)) _)) with
-            | Some p => p | None => fresh T m end)
-      with (getp (setp (setp st (NC k) (mkP (p_def (getp st (NC c))) [NT k (snd tv)]))
-                       (NT k (snd tv)) (mkP (p_def (getp st (NT c (snd tv)))) [NC k])) m).
-    rewrite getp_setp. destruct (node_eqb m (NT k (snd tv))); [reflexivity|].
+  destruct (is_transport T tv).
+  - match goal with |- getp (mkS (nodes ?s) _) m = _ =>
+      change (getp (mkS (nodes s) (k + 1)) m) with (getp s m) end.
+    rewrite getp_setp. destruct (node_eqb m (NT k (tidx (tnode tv)))); [reflexivity|].
     rewrite getp_setp. reflexivity.
-  - unfold Model.getp at 1. cbn [nodes].
-    change (match assoc m (nodes (setp st (NC k) _)) with Some p => p | None => fresh T m end)
-      with (getp (setp st (NC k) (mkP (p_def (getp st (NC c))) [])) m).
+  - match goal with |- getp (mkS (nodes ?s) _) m = _ =>
+      change (getp (mkS (nodes s) (k + 1)) m) with (getp s m) end.
     rewrite getp_setp. reflexivity.
 Qed.
 
 Lemma nextc_clone st c : nextc (clone T st c) = nextc st + 1.
-Proof. reflexivity. Qed.
+Proof. unfold clone. cbv zeta. destruct (is_transport T _); reflexivity. Qed.
+
+Lemma tnode_tid tag k i : i < TW -> tnode (tag, tid k i) = NT k i.
+Proof.
+  intro H. unfold tnode, tid. cbn [snd]. f_equal.
+  - rewrite N.div_add_l by (unfold TW; lia). rewrite N.div_small by exact H. lia.
+  - rewrite N.add_comm, N.mod_add by (unfold TW; lia). apply N.mod_small. exact H.
+Qed.
+
+Lemma tidx_tnode_lt v : tidx (tnode v) < TW.
+Proof. unfold tnode. cbn [tidx]. apply N.mod_lt. unfold TW. lia. Qed.
+
+Lemma is_transport_fst v w : fst v = fst w -> is_transport T v = is_transport T w.
+Proof. intro H. unfold is_transport, isinstance, classes_of. rewrite H. reflexivity. Qed.
+
+Lemma cur_clone st c c1 :
+  cur (clone T st c) c1 =
+  if N.eqb c1 (nextc st)
+  then (if is_transport T (defined st (NC c) name_transport)
+        then Some (NT (nextc st) (tidx (tnode (defined st (NC c) name_transport)))) else None)
+  else cur st c1.
+Proof.
+  set (tv := defined st (NC c) name_transport). set (k := nextc st).
+  assert (D : defined (clone T st c) (NC c1) name_transport =
+              if N.eqb c1 k
+              then (if is_transport T tv then (fst tv, tid k (tidx (tnode tv))) else tv)
+              else defined st (NC c1) name_transport).
+  { unfold Model.defined at 1. rewrite getp_clone. cbv zeta. fold tv k. cbn [node_eqb].
+    destruct (is_transport T tv) eqn:Et; destruct (N.eqb c1 k) eqn:Ek; cbn [p_def]; try reflexivity.
+    rewrite assocN_updN_same. reflexivity. }
+  unfold cur at 1. rewrite D. destruct (N.eqb c1 k); [|reflexivity].
+  destruct (is_transport T tv) eqn:Et.
+  - rewrite (is_transport_fst (fst tv, tid k (tidx (tnode tv))) tv eq_refl), Et.
+    rewrite tnode_tid by apply tidx_tnode_lt. reflexivity.
+  - rewrite Et. reflexivity.
+Qed.
 
 Lemma clone_refine st ss c :
   INV st -> R st ss -> INV (clone T st c) /\ R (clone T st c) (sclone T ss c).
 Proof.
-  intros HI HR. pose proof HI as (Ic & It & If). pose proof HR as [Hn Hv].
+  intros HI HR. pose proof HI as (I1 & I2 & I3 & I4 & I5). pose proof HR as [Hn Hv].
   set (k := nextc st).
   set (tv := defined st (NC c) name_transport).
-  assert (Hk : forall n, owner n = k -> getp st n = fresh T n) by (intros n H; apply If; unfold k in H; lia).
-  assert (Hcur : forall c', cur (clone T st c) c' = if N.eqb c' k then cur st c else cur st c').
-  { intro c'. unfold cur at 1. unfold Model.defined. rewrite getp_clone. cbv zeta. fold tv k.
-    cbn [node_eqb]. rewrite andb_false_r.
-    destruct (N.eqb c' k); reflexivity. }
-  assert (Hcc : cur st c = if is_transport T tv then Some (snd tv) else None) by reflexivity.
+  set (i0 := tidx (tnode tv)).
+  assert (Hk : forall n, owner n = k -> getp st n = fresh T n) by (intros n H; apply I4; unfold k in H; lia).
+  pose proof (cur_clone st c) as Hcur. fold tv k i0 in Hcur.
+  assert (Hcurk : cur st k = None) by (apply cur_fresh, Hk; reflexivity).
+  assert (Hold : forall x, owner x < k -> getp (clone T st c) x = getp st x).
+  { intros x Hx. rewrite getp_clone. cbv zeta. fold tv k i0.
+    assert (node_eqb x (NT k i0) = false) by (apply node_eqb_neq; intro; subst x; cbn in Hx; lia).
+    assert (node_eqb x (NC k) = false) by (apply node_eqb_neq; intro; subst x; cbn in Hx; lia).
+    rewrite H, H0. destruct (is_transport T tv); reflexivity. }
   split.
-  - split; [|split].
-    + intro c'. unfold Model.links. rewrite getp_clone. cbv zeta. fold tv k. cbn [node_eqb].
-      rewrite andb_false_r, Hcur. destruct (N.eqb c' k) eqn:E.
-      * apply N.eqb_eq in E. subst c'. cbn [p_links]. rewrite Hcc. destruct (is_transport T tv); reflexivity.
-      * apply Ic.
-    + intros c' i. unfold Model.links. rewrite getp_clone. cbv zeta. fold tv k. cbn [node_eqb].
-      rewrite Hcur. destruct (N.eqb c' k) eqn:E.
-      * apply N.eqb_eq in E. subst c'. rewrite Hcc. cbn [andb].
-        destruct (is_transport T tv); cbn [andb].
-        -- destruct (N.eqb i (snd tv)); [reflexivity|].
-           rewrite (Hk (NT k i)) by reflexivity. reflexivity.
-        -- rewrite (Hk (NT k i)) by reflexivity. reflexivity.
-      * cbn [andb]. rewrite andb_false_r. apply It.
-    + intros m Hm. rewrite nextc_clone in Hm. rewrite getp_clone. cbv zeta. fold tv k.
-      assert (owner m <> k) by (unfold k; lia).
-      rewrite (node_eqb_neq m (NT k (snd tv))), andb_false_r by (intro; subst m; cbn in *; congruence).
-      rewrite (node_eqb_neq m (NC k)) by (intro; subst m; cbn in *; congruence).
-      apply If. lia.
+  - split; [|split; [|split; [|split]]].
+    + (* I1 *)
+      intro c1. rewrite Hcur. destruct (N.eqb c1 k) eqn:E.
+      * apply N.eqb_eq in E. subst c1. unfold Model.links. rewrite getp_clone. cbv zeta. fold tv k i0.
+        cbn [node_eqb]. rewrite N.eqb_refl. destruct (is_transport T tv); reflexivity.
+      * apply N.eqb_neq in E. unfold Model.links. rewrite getp_clone. cbv zeta. fold tv k i0.
+        cbn [node_eqb]. apply N.eqb_neq in E. rewrite E. destruct (is_transport T tv); apply I1.
+    + (* I2a *)
+      intros c1 t Ht. rewrite Hcur in Ht. destruct (N.eqb c1 k) eqn:E.
+      * apply N.eqb_eq in E. subst c1. destruct (is_transport T tv) eqn:Et; [|discriminate].
+        inversion Ht; subst t. unfold Model.links. rewrite getp_clone. cbv zeta. fold tv k i0.
+        rewrite Et, node_eqb_refl. reflexivity.
+      * unfold Model.links. rewrite Hold by (eapply I5; eauto). eapply I2; eauto.
+    + (* I2b *)
+      intros a i Hno. unfold Model.links. rewrite getp_clone. cbv zeta. fold tv k i0.
+      cbn [node_eqb].
+      assert (Hst : links st (NT a i) = []).
+      { apply I3. intros c1 Hc1. destruct (N.eqb c1 k) eqn:E.
+        - apply N.eqb_eq in E. subst c1. congruence.
+        - apply (Hno c1). rewrite Hcur, E. exact Hc1. }
+      destruct (is_transport T tv) eqn:Et; [|exact Hst].
+      destruct (N.eqb a k && N.eqb i i0) eqn:E; [|exact Hst].
+      apply andb_true_iff in E as [E1 E2]. apply N.eqb_eq in E1, E2. subst a i.
+      exfalso. apply (Hno k). rewrite Hcur, N.eqb_refl. reflexivity.
+    + (* I4 *)
+      intros m Hm. rewrite nextc_clone in Hm. fold k in Hm. rewrite getp_clone. cbv zeta. fold tv k i0.
+      assert (node_eqb m (NT k i0) = false) by (apply node_eqb_neq; intro; subst m; cbn in Hm; lia).
+      assert (node_eqb m (NC k) = false) by (apply node_eqb_neq; intro; subst m; cbn in Hm; lia).
+      rewrite H, H0. destruct (is_transport T tv); apply I4; unfold k in Hm; lia.
+    + (* I5 *)
+      intros c1 t Ht. rewrite nextc_clone. fold k. rewrite Hcur in Ht. destruct (N.eqb c1 k).
+      * destruct (is_transport T tv); [|discriminate]. inversion Ht; subst t. cbn. lia.
+      * pose proof (I5 _ _ Ht). fold k in H. lia.
   - split.
     + rewrite nextc_clone. unfold sclone. cbn [s_next]. congruence.
     + intros m name Hd.
+      assert (Htv : sval T ss (NC c) name_transport = tv) by (symmetry; apply Hv, has_transport).
       assert (Hs : sval T (sclone T ss c) m name =
                    sval T (match s_cur T ss c with
-                           | Some i => fold_left (fun s d => sput s (NT (s_next ss) i) (d_name d)
-                                                                  (sval T ss (NT c i) (d_name d)))
-                                                 (tdefs T)
-                                                 (fold_left (fun s d => sput s (NC (s_next ss)) (d_name d)
-                                                                             (sval T ss (NC c) (d_name d)))
-                                                            (cdefs T) ss)
+                           | Some t =>
+                               sput (fold_left (fun s d => sput s (NT (s_next ss) (tidx t)) (d_name d)
+                                                                  (sval T ss t (d_name d)))
+                                               (tdefs T)
+                                               (fold_left (fun s d => sput s (NC (s_next ss)) (d_name d)
+                                                                           (sval T ss (NC c) (d_name d)))
+                                                          (cdefs T) ss))
+                                    (NC (s_next ss)) name_transport
+                                    (fst (sval T ss (NC c) name_transport), tid (s_next ss) (tidx t))
                            | None => fold_left (fun s d => sput s (NC (s_next ss)) (d_name d)
                                                                 (sval T ss (NC c) (d_name d)))
                                                (cdefs T) ss
                            end) m name) by reflexivity.
-      rewrite Hs. clear Hs. rewrite <- (cur_R st ss c HR), Hcc, <- Hn. fold k.
-      unfold Model.defined. rewrite getp_clone. cbv zeta. fold tv k.
-      destruct (is_transport T tv) eqn:Et; cbn [andb].
-      * rewrite (sval_fold (tdefs T) (NT k (snd tv)) (fun nm => sval T ss (NT c (snd tv)) nm)).
-        destruct (node_eqb m (NT k (snd tv))) eqn:E1; cbn [andb].
-        -- apply node_eqb_eq in E1. subst m. rewrite has_def_memN in Hd. cbn [defs_of] in Hd. rewrite Hd.
-           cbn [p_def]. apply (Hv (NT c (snd tv)) name). rewrite has_def_memN. exact Hd.
-        -- rewrite (sval_fold (cdefs T) (NC k) (fun nm => sval T ss (NC c) nm)).
-           destruct (node_eqb m (NC k)) eqn:E2; cbn [andb].
-           ++ apply node_eqb_eq in E2. subst m. rewrite has_def_memN in Hd. cbn [defs_of] in Hd. rewrite Hd.
-              cbn [p_def]. apply (Hv (NC c) name). rewrite has_def_memN. exact Hd.
+      rewrite Hs. clear Hs. rewrite <- (cur_R st ss c HR), Htv, <- Hn. fold k.
+      unfold cur. fold tv.
+      unfold Model.defined. rewrite getp_clone. cbv zeta. fold tv k i0.
+      destruct (is_transport T tv) eqn:Et.
+      * fold i0. rewrite sval_sput.
+        rewrite (sval_fold (tdefs T) (NT k i0) (fun nm => sval T ss (tnode tv) nm)).
+        rewrite (sval_fold (cdefs T) (NC k) (fun nm => sval T ss (NC c) nm)).
+        destruct (node_eqb m (NT k i0)) eqn:E1.
+        -- apply node_eqb_eq in E1. subst m. cbn [node_eqb andb p_def].
+           rewrite has_def_memN in Hd. cbn [defs_of] in Hd. rewrite Hd.
+           apply (Hv (tnode tv) name). rewrite has_def_memN. exact Hd.
+        -- destruct (node_eqb m (NC k)) eqn:E2; cbn [andb p_def].
+           ++ apply node_eqb_eq in E2. subst m.
+              destruct (N.eqb name name_transport) eqn:E3.
+              ** apply N.eqb_eq in E3. subst name. rewrite assocN_updN_same. reflexivity.
+              ** apply N.eqb_neq in E3. rewrite assocN_updN_other by exact E3.
+                 rewrite has_def_memN in Hd. cbn [defs_of] in Hd. rewrite Hd.
+                 apply (Hv (NC c) name). rewrite has_def_memN. exact Hd.
            ++ apply Hv. exact Hd.
       * rewrite (sval_fold (cdefs T) (NC k) (fun nm => sval T ss (NC c) nm)).
         destruct (node_eqb m (NC k)) eqn:E2; cbn [andb].
@@ -750,14 +1028,20 @@ Qed.
 (* layer 7: one step, any history                                       *)
 (* ------------------------------------------------------------------ *)
 
+Lemma vexists_R st ss v : R st ss -> vexists T st v = svexists T ss v.
+Proof. intros [Hn _]. unfold vexists, svexists, exists_node. rewrite Hn. reflexivity. Qed.
+
 Lemma step_refine st ss o st' r :
-  INV st -> R st ss -> step T st o = (st', r) ->
+  INV st -> R st ss -> shares T ss o = false -> step T st o = (st', r) ->
   exists ss', sstep T false ss o = (ss', r) /\ INV st' /\ R st' ss'.
 Proof.
-  intros HI HR. pose proof HR as [Hn _].
-  destruct o as [n name v|n name|n names|c|c]; cbn [step sstep]; unfold exists_node; rewrite <- Hn.
-  - destruct (owner n <? nextc st) eqn:E.
-    + apply N.ltb_lt in E. intro H. eapply set_refine; eauto.
+  intros HI HR Hsh. pose proof HR as [Hn _].
+  destruct o as [n name v|n name|n names|c|n tag|c]; cbn [step sstep]; unfold exists_node;
+    rewrite <- ?(vexists_R st ss _ HR), <- Hn.
+  - destruct (owner n <? nextc st) eqn:E; cbn [andb].
+    + destruct (vexists T st v) eqn:Ev.
+      * apply N.ltb_lt in E. intro H. eapply set_refine; eauto.
+      * intro H; inversion H; subst. eauto.
     + intro H; inversion H; subst. eauto.
   - intro H; inversion H; subst. eexists; split; [|split; eassumption].
     destruct (owner n <? nextc st'); [rewrite (get_refine _ _ _ _ HI HR)|]; reflexivity.
@@ -766,22 +1050,25 @@ Proof.
     f_equal. f_equal. apply map_ext. intro nm. rewrite (get_refine _ _ _ _ HI HR). reflexivity.
   - intro H; inversion H; subst. eexists; split; [|split; eassumption].
     destruct (c <? nextc st'); [rewrite (use_refine _ _ _ HI HR)|]; reflexivity.
+  - intro H; inversion H; subst. eexists; split; [|split; eassumption].
+    destruct (owner n <? nextc st'); [rewrite (tuse_refine _ _ _ _ HI HR)|]; reflexivity.
   - destruct (c <? nextc st).
     + intro H; inversion H; subst. eexists; split; [reflexivity|]. apply clone_refine; assumption.
     + intro H; inversion H; subst. eauto.
 Qed.
 
 Lemma run_refine ops : forall st ss,
-  INV st -> R st ss ->
+  INV st -> R st ss -> noshare_from T ss ops = true ->
   snd (run T st ops) = snd (srun T false ss ops)
   /\ INV (fst (run T st ops))
   /\ R (fst (run T st ops)) (fst (srun T false ss ops)).
 Proof.
-  induction ops as [|o ops IH]; intros st ss HI HR; cbn [run srun].
+  induction ops as [|o ops IH]; intros st ss HI HR HG; cbn [run srun].
   - auto.
-  - destruct (step T st o) as [st1 r] eqn:E.
-    destruct (step_refine _ _ _ _ _ HI HR E) as (ss1 & E' & HI1 & HR1).
-    rewrite E'. specialize (IH st1 ss1 HI1 HR1).
+  - cbn [noshare_from] in HG. apply andb_true_iff in HG as [G1 G2]. apply negb_true_iff in G1.
+    destruct (step T st o) as [st1 r] eqn:E.
+    destruct (step_refine _ _ _ _ _ HI HR G1 E) as (ss1 & E' & HI1 & HR1).
+    rewrite E' in *. cbn [fst] in G2. specialize (IH st1 ss1 HI1 HR1 G2).
     destruct (run T st1 ops) as [st2 rs]. destruct (srun T false ss1 ops) as [ss2 rs'].
     cbn [fst snd] in *. destruct IH as (A & B & C). subst. auto.
 Qed.
@@ -789,13 +1076,13 @@ Qed.
 Lemma INV_virgin : INV virgin.
 Proof.
   assert (Hg : forall n, getp virgin n = fresh T n) by reflexivity.
-  assert (Hc : forall c, cur virgin c = None).
-  { intro c. unfold cur. rewrite (defined_fresh _ _ _ (Hg (NC c))). unfold default_of. cbn [defs_of].
-    destruct transport_def as [d Hd]. rewrite Hd, (transport_default_not_transport _ Hd). reflexivity. }
-  split; [|split].
+  assert (Hc : forall c, cur virgin c = None) by (intro c; apply cur_fresh, Hg).
+  split; [|split; [|split; [|split]]].
   - intro c. rewrite Hc. reflexivity.
-  - intros c i. rewrite Hc. reflexivity.
+  - intros c t H. rewrite Hc in H. discriminate.
+  - intros a i _. unfold Model.links. rewrite Hg. reflexivity.
   - intros n _. apply Hg.
+  - intros c t H. rewrite Hc in H. discriminate.
 Qed.
 
 Lemma R_virgin : R virgin svirgin.
@@ -804,185 +1091,354 @@ Proof.
   rewrite (defined_fresh virgin n name) by reflexivity. reflexivity.
 Qed.
 
+Lemma shares_virgin o : shares T svirgin o = false.
+Proof.
+  destruct o as [n name v| | | | |]; try reflexivity. unfold shares.
+  destruct (N.eqb name name_transport && is_transport T v); [|reflexivity]. cbn [andb].
+  destruct (resolve T svirgin n name) as [[c|a i]|]; try reflexivity.
+  rewrite <- (holder_R virgin svirgin _ R_virgin).
+  destruct (holder virgin (tnode v)) as [c'|] eqn:E; [|reflexivity].
+  apply (holder_cur _ _ _ INV_virgin) in E.
+  rewrite (cur_fresh virgin c') in E by reflexivity. discriminate.
+Qed.
+
 Lemma init_ok : INV (init T) /\ R (init T) (sinit T).
 Proof.
   unfold init, sinit.
   destruct (step T virgin (St (NC 0) name_transport (16, 0))) as [st r] eqn:E.
-  destruct (step_refine _ _ _ _ _ INV_virgin R_virgin E) as (ss & E' & HI & HR).
+  destruct (step_refine _ _ _ _ _ INV_virgin R_virgin (shares_virgin _) E) as (ss & E' & HI & HR).
   rewrite E'. auto.
 Qed.
 
 (* the model refines the map specification on histories of any length *)
 Lemma options_refine_map_l ops :
+  noshare T ops = true ->
   snd (run T (init T) ops) = snd (srun T false (sinit T) ops).
-Proof. destruct init_ok as [HI HR]. apply (run_refine ops _ _ HI HR). Qed.
+Proof. intro HG. destruct init_ok as [HI HR]. apply (run_refine ops _ _ HI HR HG). Qed.
 
-Lemma link_invariant_l ops : INV (fst (run T (init T) ops)).
-Proof. destruct init_ok as [HI HR]. apply (run_refine ops _ _ HI HR). Qed.
+Lemma link_invariant_l ops : noshare T ops = true -> INV (fst (run T (init T) ops)).
+Proof. intro HG. destruct init_ok as [HI HR]. apply (run_refine ops _ _ HI HR HG). Qed.
 
 (* ------------------------------------------------------------------ *)
-(* layer 8: frame (independence of clients), clone copies               *)
+(* layer 8: paired runs; independence of clients                        *)
 (* ------------------------------------------------------------------ *)
 
-Definition Reach (st : state) : Prop := INV st /\ exists ss, R st ss.
+Definition Pair (st : state) (ss : sstate) : Prop := INV st /\ R st ss.
 
-Lemma step_reach st o st' r : Reach st -> step T st o = (st', r) -> Reach st'.
+Lemma run_app ops1 ops2 st :
+  fst (run T st (ops1 ++ ops2)) = fst (run T (fst (run T st ops1)) ops2).
 Proof.
-  intros [HI [ss HR]] E. destruct (step_refine _ _ _ _ _ HI HR E) as (ss' & _ & HI' & HR').
-  split; eauto.
+  revert st. induction ops1 as [|o ops1 IH]; intro st; cbn [app run]; [reflexivity|].
+  destruct (step T st o) as [st1 r]. specialize (IH st1).
+  destruct (run T st1 (ops1 ++ ops2)). destruct (run T st1 ops1). cbn [fst] in *. exact IH.
 Qed.
 
-Lemma run_reach ops : forall st, Reach st -> Reach (fst (run T st ops)).
+Lemma srun_app f ops1 ops2 ss :
+  fst (srun T f ss (ops1 ++ ops2)) = fst (srun T f (fst (srun T f ss ops1)) ops2).
 Proof.
-  induction ops as [|o ops IH]; intros st H; cbn [run]; [exact H|].
-  destruct (step T st o) as [st1 r] eqn:E. specialize (IH st1 (step_reach _ _ _ _ H E)).
-  destruct (run T st1 ops). exact IH.
+  revert ss. induction ops1 as [|o ops1 IH]; intro ss; cbn [app srun]; [reflexivity|].
+  destruct (sstep T f ss o) as [ss1 r]. specialize (IH ss1).
+  destruct (srun T f ss1 (ops1 ++ ops2)). destruct (srun T f ss1 ops1). cbn [fst] in *. exact IH.
 Qed.
 
-Lemma init_reach : Reach (init T).
-Proof. destruct init_ok. split; eauto. Qed.
-
-Lemma pset_frame st n name v st' r m :
-  INV st -> pset T st (mres st n name) name v = (st', r) ->
-  owner m <> owner n -> getp st' m = getp st m.
+Lemma noshare_from_app ops1 ops2 ss :
+  noshare_from T ss (ops1 ++ ops2) =
+  noshare_from T ss ops1 && noshare_from T (fst (srun T false ss ops1)) ops2.
 Proof.
-  intros HI E Hm. pose proof (owner_mres st n name) as Hown.
-  set (p := mres st n name) in *. unfold pset in E.
-  destruct (find_def (defs_of T p) name) as [d|] eqn:Ed; [|inversion E; reflexivity].
-  destruct (validate T d v); cbn [negb] in E; [|inversion E; reflexivity].
-  destruct (d_linker d) eqn:El.
-  - destruct p as [c|c i] eqn:Ep; [|rewrite (tdef_no_linker _ _ Ed) in El; discriminate].
-    pose proof (cdef_linker _ _ Ed) as Hl. rewrite El in Hl. symmetry in Hl.
-    apply N.eqb_eq in Hl. subst name. cbn [owner] in *.
-    set (st1 := set_defined T st (NC c) name_transport (nvl d v)) in *.
-    assert (Hs1 : shape st1 c (cur st c)).
-    { destruct (INV_shape st c HI) as [A B]. split.
-      - unfold st1. rewrite links_set_defined. exact A.
-      - intro i. unfold st1. rewrite links_set_defined. apply B. }
-    destruct (linker_branch st1 c (defined st (NC c) name_transport) (nvl d v) Hs1) as (st3 & E3 & _ & Hb3).
-    cbv zeta in E3.
-    change (Model.defined T st (NC c) name_transport) with (defined st (NC c) name_transport) in E.
-    rewrite E3 in E. inversion E; subst st' r.
-    destruct Hb3 as (_ & B2 & _). rewrite B2 by congruence.
-    unfold st1. rewrite getp_set_defined. rewrite node_eqb_neq; [reflexivity|].
-    intro; subst m. cbn in *. congruence.
-  - inversion E; subst st' r. rewrite getp_set_defined. rewrite node_eqb_neq; [reflexivity|].
-    intro; subst m. congruence.
+  revert ss. induction ops1 as [|o ops1 IH]; intro ss; cbn [app noshare_from srun]; [reflexivity|].
+  rewrite IH. destruct (sstep T false ss o) as [ss1 r]. cbn [fst].
+  destruct (srun T false ss1 ops1). cbn [fst]. rewrite andb_assoc. reflexivity.
 Qed.
 
-(* an operation addressed to client k (its options or one of its transports) *)
-Definition only_client (k : N) (o : op) : Prop :=
-  match o with
-  | St n _ _ => owner n = k
-  | Cl _ => False
-  | _ => True
+Lemma run_pair ops st ss :
+  Pair st ss -> noshare_from T ss ops = true ->
+  Pair (fst (run T st ops)) (fst (srun T false ss ops)).
+Proof. intros [HI HR] HG. destruct (run_refine ops st ss HI HR HG) as (_ & A & B). split; assumption. Qed.
+
+Lemma init_pair : Pair (init T) (sinit T).
+Proof. exact init_ok. Qed.
+
+Lemma reach_pair ops :
+  noshare T ops = true -> Pair (fst (run T (init T) ops)) (fst (srun T false (sinit T) ops)).
+Proof. intro HG. apply run_pair; [apply init_pair|exact HG]. Qed.
+
+(* an assignment through <n> is on client k's side: through k's options,
+   through the options of the transport object k holds, or through the
+   options of a transport object nobody holds *)
+Definition side (st : state) (k : N) (n : node) : bool :=
+  match n with
+  | NC c => N.eqb c k
+  | NT _ _ => match holder st n with Some c => N.eqb c k | None => true end
   end.
 
-Lemma step_frame st o st' r k m :
-  INV st -> step T st o = (st', r) -> only_client k o -> owner m <> k -> getp st' m = getp st m.
+Fixpoint on_side (k : N) (st : state) (ops : list op) : bool :=
+  match ops with
+  | [] => true
+  | o :: ops' =>
+      match o with St n _ _ => side st k n | Cl _ => false | _ => true end
+      && on_side k (fst (step T st o)) ops'
+  end.
+
+(* the maps client m reads are the same in ss' as in ss *)
+Definition Keep (ss ss' : sstate) (m : N) : Prop :=
+  (forall nm, sval T ss' (NC m) nm = sval T ss (NC m) nm)
+  /\ (forall t nm, s_cur T ss m = Some t -> sval T ss' t nm = sval T ss t nm).
+
+Lemma Keep_refl ss m : Keep ss ss m.
+Proof. split; reflexivity. Qed.
+
+Lemma Keep_cur ss ss' m : Keep ss ss' m -> s_cur T ss' m = s_cur T ss m.
+Proof. intros [A _]. unfold s_cur. rewrite A. reflexivity. Qed.
+
+Lemma Keep_trans a b d m : Keep a b m -> Keep b d m -> Keep a d m.
 Proof.
-  intros HI E Ho Hm. destruct o as [n name v|n name|n names|c|c]; cbn [step only_client] in *;
-    try (inversion E; reflexivity); [|contradiction].
-  destruct (exists_node st n); [|inversion E; reflexivity].
-  rewrite (provider_simple _ _ _ HI) in E. eapply pset_frame; eauto. congruence.
+  intros K1 K2. pose proof (Keep_cur _ _ _ K1) as Hc. destruct K1 as [A1 A2], K2 as [B1 B2]. split.
+  - intro nm. rewrite B1. apply A1.
+  - intros t nm Ht. rewrite B2 by congruence. apply A2. exact Ht.
 Qed.
 
-Lemma run_frame ops : forall st k m,
-  Reach st -> Forall (only_client k) ops -> owner m <> k ->
-  getp (fst (run T st ops)) m = getp st m.
+Lemma sset_keep st ss n name v ss' r k m :
+  Pair st ss -> side st k n = true -> m <> k ->
+  sset T false ss n name v = (ss', r) -> Keep ss ss' m.
 Proof.
-  induction ops as [|o ops IH]; intros st k m HR HF Hm; cbn [run]; [reflexivity|].
-  inversion HF; subst.
+  intros [HI HR] Hs Hm. unfold sset. rewrite (resolve_mres st ss n name HR).
+  destruct (has_def T (mres st n name) name); [|intro H; inversion H; apply Keep_refl].
+  destruct (find_def _ name) as [d|]; [|intro H; inversion H; apply Keep_refl].
+  destruct (validate T d v); cbn [negb]; [|intro H; inversion H; apply Keep_refl].
+  intro H; inversion H; subst ss' r; clear H.
+  assert (P1 : mres st n name <> NC m).
+  { unfold mres. destruct (has_def T n name).
+    - destruct n as [c|a i]; [|discriminate]. cbn in Hs. apply N.eqb_eq in Hs. congruence.
+    - destruct n as [c|a i].
+      + cbn in Hs. apply N.eqb_eq in Hs. subst c.
+        destruct (cur st k) as [t|] eqn:Ec; [|congruence].
+        destruct (cur_nt _ _ _ Ec) as (a & i & ->). destruct (has_def T _ name); congruence.
+      + cbn [side] in Hs. destruct (holder st (NT a i)) as [c|]; [|discriminate].
+        apply N.eqb_eq in Hs. subst c. destruct (has_def T _ name); congruence. }
+  assert (P2 : forall t, cur st m = Some t -> mres st n name <> t).
+  { intros t Ht. destruct (cur_nt _ _ _ Ht) as (a0 & i0 & ->). unfold mres.
+    assert (Hn : n = NT a0 i0 -> False).
+    { intro; subst n. cbn [side] in Hs. apply (holder_cur _ _ _ HI) in Ht. rewrite Ht in Hs.
+      apply N.eqb_eq in Hs. congruence. }
+    destruct (has_def T n name); [intro X; apply Hn; exact X|].
+    destruct n as [c|a i].
+    - cbn in Hs. apply N.eqb_eq in Hs. subst c.
+      destruct (cur st k) as [t|] eqn:Ec; [|discriminate].
+      destruct (has_def T t name); [|discriminate].
+      intro; subst t. apply Hm. eapply cur_unique; eauto.
+    - destruct (holder st (NT a i)) as [c|]; [|intro X; apply Hn; exact X].
+      destruct (has_def T (NC c) name); [discriminate|intro X; apply Hn; exact X]. }
+  split.
+  - intro nm. rewrite sval_sput, node_eqb_neq; [reflexivity|]. intro X. apply P1. congruence.
+  - intros t nm Ht. rewrite <- (cur_R st ss m HR) in Ht.
+    rewrite sval_sput, node_eqb_neq; [reflexivity|]. intro X. apply (P2 _ Ht). congruence.
+Qed.
+
+Lemma sstep_keep st ss o ss' r k m :
+  Pair st ss -> match o with St n _ _ => side st k n | Cl _ => false | _ => true end = true ->
+  m <> k -> sstep T false ss o = (ss', r) -> Keep ss ss' m.
+Proof.
+  intros HP Hs Hm. destruct o as [n name v|n name|n names|c|n tag|c]; cbn [sstep];
+    try (intro H; inversion H; apply Keep_refl); [|discriminate].
+  destruct (_ && _); [|intro H; inversion H; apply Keep_refl].
+  intro H. eapply sset_keep; eauto.
+Qed.
+
+Lemma s_holder_cur st ss t c : Pair st ss -> (s_holder T ss t = Some c <-> s_cur T ss c = Some t).
+Proof. intros [HI HR]. rewrite <- (holder_R st ss t HR), <- (cur_R st ss c HR). apply holder_cur. exact HI. Qed.
+
+(* what client m reads through its options and through its transport's options *)
+Lemma keep_sget st ss st' ss' m x nm :
+  Pair st ss -> Pair st' ss' -> Keep ss ss' m ->
+  x = NC m \/ s_cur T ss m = Some x ->
+  sget T ss' x nm = sget T ss x nm.
+Proof.
+  intros HP HP' K Hx. pose proof (Keep_cur _ _ _ K) as Hc. destruct K as [K1 K2].
+  unfold sget, resolve. destruct Hx as [->|Hx].
+  - destruct (has_def T (NC m) nm); [rewrite K1; reflexivity|].
+    rewrite Hc. destruct (s_cur T ss m) as [t|] eqn:Ec; [|reflexivity].
+    destruct (has_def T t nm); [|reflexivity]. rewrite (K2 t nm eq_refl). reflexivity.
+  - destruct (has_def T x nm); [rewrite (K2 x nm Hx); reflexivity|].
+    assert (H1 : s_holder T ss x = Some m) by (apply (s_holder_cur st ss x m HP); exact Hx).
+    assert (H2 : s_holder T ss' x = Some m) by (apply (s_holder_cur st' ss' x m HP'); congruence).
+    pose proof HP as [HI HR].
+    destruct (cur_nt st m x) as (a & i & ->); [rewrite (cur_R st ss m HR); exact Hx|].
+    rewrite H1, H2. destruct (has_def T (NC m) nm); [rewrite K1; reflexivity|reflexivity].
+Qed.
+
+Lemma run_keep k m ops : forall st ss,
+  Pair st ss -> noshare_from T ss ops = true -> on_side k st ops = true -> m <> k ->
+  Keep ss (fst (srun T false ss ops)) m.
+Proof.
+  induction ops as [|o ops IH]; intros st ss HP HG HS Hm; cbn [srun]; [apply Keep_refl|].
+  cbn [noshare_from] in HG. apply andb_true_iff in HG as [G1 G2]. apply negb_true_iff in G1.
+  cbn [on_side] in HS. apply andb_true_iff in HS as [S1 S2].
   destruct (step T st o) as [st1 r] eqn:E.
-  pose proof (step_reach _ _ _ _ HR E) as HR1.
-  specialize (IH st1 k m HR1 H2 Hm).
-  destruct (run T st1 ops) as [st2 rs]. cbn [fst] in *.
-  rewrite IH. destruct HR as [HI _]. eapply step_frame; eauto.
+  destruct HP as [HI HR].
+  destruct (step_refine _ _ _ _ _ HI HR G1 E) as (ss1 & E' & HI1 & HR1).
+  rewrite E' in *. cbn [fst] in *.
+  pose proof (sstep_keep st ss o ss1 r k m (conj HI HR) S1 Hm E') as K1.
+  specialize (IH st1 ss1 (conj HI1 HR1) G2 S2 Hm).
+  destruct (srun T false ss1 ops) as [ss2 rs]. cbn [fst] in *.
+  eapply Keep_trans; eauto.
 Qed.
 
-(* what a read through m depends on *)
-Lemma get_ext st st' m name :
-  INV st -> INV st' ->
-  (forall x, owner x = owner m -> getp st' x = getp st x) ->
-  get T st' m name = get T st m name.
+Lemma keep_suse st ss st' ss' m :
+  Pair st ss -> Pair st' ss' -> Keep ss ss' m -> suse T ss' m = suse T ss m.
 Proof.
-  intros HI HI' H. unfold get. rewrite !provider_simple by assumption.
-  assert (Hc : cur st' (owner m) = cur st (owner m)).
-  { apply cur_ext. rewrite (H (NC (owner m))) by reflexivity. reflexivity. }
-  assert (Hm : mres st' m name = mres st m name).
-  { unfold mres. destruct m as [c|c i]; cbn [owner] in Hc; rewrite Hc; reflexivity. }
-  rewrite Hm. unfold pget.
-  destruct (find_def (defs_of T (mres st m name)) name); [|reflexivity].
-  rewrite (defined_ext st st'); [reflexivity|]. rewrite H; [reflexivity|apply owner_mres].
+  intros HP HP' K. unfold suse. destruct K as [K1 K2] eqn:EK. rewrite K1.
+  set (tv := sval T ss (NC m) name_transport).
+  destruct (is_transport T tv) eqn:Et; [|reflexivity].
+  assert (Hc : s_cur T ss m = Some (tnode tv)) by (unfold s_cur; fold tv; rewrite Et; reflexivity).
+  rewrite (keep_sget st ss st' ss' m (NC m) name_headers HP HP' (conj K1 K2) (or_introl eq_refl)).
+  unfold stuse.
+  rewrite !(keep_sget st ss st' ss' m (tnode tv) _ HP HP' (conj K1 K2) (or_intror Hc)).
+  reflexivity.
 Qed.
 
-(* independence: whatever is done to client k (any number of assignments
-   through its options or its transports' options, valid or not), every
-   option read through another client or its transports is unchanged *)
-Lemma independent_l ops1 ops2 k m name :
-  Forall (only_client k) ops2 -> owner m <> k ->
+(* independence: whatever is assigned on client k's side (any number of
+   assignments, valid or not, through its options, its transport's options,
+   replacing its transport), everything client m reads through its options
+   and through its transport's options, and everything m's transport uses on
+   a send, is unchanged *)
+Lemma independent_l ops1 ops2 k m :
+  noshare T (ops1 ++ ops2) = true -> m <> k ->
   let st := fst (run T (init T) ops1) in
-  get T (fst (run T st ops2)) m name = get T st m name.
+  on_side k st ops2 = true ->
+  let st' := fst (run T st ops2) in
+  (forall x nm, x = NC m \/ cur st m = Some x -> get T st' x nm = get T st x nm)
+  /\ use T st' m = use T st m.
 Proof.
-  intros HF Hm st.
-  assert (HR : Reach st) by (apply run_reach, init_reach).
-  pose proof (run_reach ops2 st HR) as HR2.
-  apply get_ext; [apply HR|apply HR2|].
-  intros x Hx. apply (run_frame ops2 st k x); [exact HR|exact HF|congruence].
+  intros HG Hm st HS st'.
+  unfold noshare in HG. rewrite noshare_from_app in HG. apply andb_true_iff in HG as [G1 G2].
+  pose proof (reach_pair ops1 G1) as HP. fold st in HP.
+  set (ss := fst (srun T false (sinit T) ops1)) in *.
+  pose proof (run_pair ops2 st ss HP G2) as HP'. fold st' in HP'.
+  pose proof (run_keep k m ops2 st ss HP G2 HS Hm) as K.
+  set (ss' := fst (srun T false ss ops2)) in *.
+  split.
+  - intros x nm Hx. destruct HP as [HI HR]. destruct HP' as [HI' HR'].
+    rewrite (get_refine st' ss' x nm HI' HR'), (get_refine st ss x nm HI HR).
+    apply (keep_sget st ss st' ss' m x nm); try (split; assumption); [exact K|].
+    destruct Hx as [Hx|Hx]; [left; exact Hx|right]. rewrite <- (cur_R st ss m HR). exact Hx.
+  - destruct HP as [HI HR]. destruct HP' as [HI' HR'].
+    rewrite (use_refine st' ss' m HI' HR'), (use_refine st ss m HI HR).
+    apply (keep_suse st ss st' ss' m); try (split; assumption). exact K.
 Qed.
 
-(* a clone starts with the values of its original, and cloning does not
-   change what the existing clients read *)
-Lemma clone_copies_l ops c name :
+(* ------------------------------------------------------------------ *)
+(* layer 9: clone copies                                                *)
+(* ------------------------------------------------------------------ *)
+
+Lemma getp_clone_old st c x : owner x < nextc st -> getp (clone T st c) x = getp st x.
+Proof.
+  intro Hx. rewrite getp_clone. cbv zeta.
+  set (k := nextc st) in *. set (tv := defined st (NC c) name_transport).
+  assert (node_eqb x (NT k (tidx (tnode tv))) = false) by (apply node_eqb_neq; intro; subst x; cbn in Hx; lia).
+  assert (node_eqb x (NC k) = false) by (apply node_eqb_neq; intro; subst x; cbn in Hx; lia).
+  rewrite H, H0. destruct (is_transport T tv); reflexivity.
+Qed.
+
+Lemma holder_clone_old st c a i :
+  INV st -> INV (clone T st c) -> a < nextc st ->
+  holder (clone T st c) (NT a i) = holder st (NT a i).
+Proof.
+  intros HI HI' Ha.
+  destruct (holder st (NT a i)) as [c1|] eqn:E.
+  - apply (holder_cur _ _ _ HI) in E. apply (holder_cur _ _ _ HI').
+    rewrite cur_clone. pose proof (cur_bounded _ _ _ HI E) as Hb.
+    assert (N.eqb c1 (nextc st) = false) by (apply N.eqb_neq; lia). rewrite H. exact E.
+  - destruct (holder (clone T st c) (NT a i)) as [c1|] eqn:E'; [|reflexivity].
+    apply (holder_cur _ _ _ HI') in E'. rewrite cur_clone in E'.
+    destruct (N.eqb c1 (nextc st)).
+    + destruct (is_transport T _); [|discriminate]. inversion E'. lia.
+    + exfalso. exact (holder_none st (NT a i) HI E c1 E').
+Qed.
+
+(* a clone starts with the values of its original (its transport is a new
+   object of the same class carrying the original transport's values), and
+   cloning does not change what the existing clients and transports read *)
+Lemma clone_copies_l ops c :
+  noshare T ops = true ->
   let st := fst (run T (init T) ops) in
   c < nextc st ->
   let st' := fst (step T st (Cl c)) in
-  get T st' (NC (nextc st)) name = get T st (NC c) name
-  /\ (forall m, owner m < nextc st -> get T st' m name = get T st m name).
+  let k := nextc st in
+  (forall name, name <> name_transport -> get T st' (NC k) name = get T st (NC c) name)
+  /\ (forall tv, get T st (NC c) name_transport = OVal tv ->
+        if is_transport T tv
+        then get T st' (NC k) name_transport = OVal (fst tv, tid k (tidx (tnode tv)))
+             /\ cur st' k = Some (NT k (tidx (tnode tv)))
+        else get T st' (NC k) name_transport = OVal tv)
+  /\ (forall m name, owner m < nextc st -> get T st' m name = get T st m name).
 Proof.
-  intros st Hc st'.
-  assert (HR : Reach st) by (apply run_reach, init_reach).
+  intros HG st Hc st' k.
+  destruct (reach_pair ops HG) as [HI HR]. fold st in HI, HR.
   assert (E : step T st (Cl c) = (clone T st c, OOk)).
   { cbn [step]. apply N.ltb_lt in Hc. rewrite Hc. reflexivity. }
-  assert (HR' : Reach st') by (unfold st'; rewrite E; eapply step_reach; eauto).
-  unfold st'. rewrite E. cbn [fst]. destruct HR as [HI _]. destruct HR' as [HI' _].
-  unfold st' in HI'. rewrite E in HI'. cbn [fst] in HI'.
-  set (k := nextc st) in *.
-  split.
-  - unfold get. rewrite !provider_simple by assumption.
-    assert (Hcur : cur (clone T st c) k = cur st c).
-    { unfold cur, Model.defined. rewrite getp_clone. cbv zeta. fold k. cbn [node_eqb].
-      rewrite andb_false_r, N.eqb_refl. reflexivity. }
-    unfold mres. rewrite Hcur.
+  unfold st'. rewrite E. cbn [fst].
+  destruct (clone_refine st _ c HI HR) as [HI' _].
+  set (tv0 := defined st (NC c) name_transport).
+  assert (Hcurk : cur (clone T st c) k = if is_transport T tv0 then Some (NT k (tidx (tnode tv0))) else None).
+  { rewrite cur_clone. unfold k. rewrite N.eqb_refl. reflexivity. }
+  assert (Dk : forall name, defined (clone T st c) (NC k) name =
+                 if is_transport T tv0 && N.eqb name name_transport
+                 then (fst tv0, tid k (tidx (tnode tv0))) else defined st (NC c) name).
+  { intro name. unfold Model.defined at 1. rewrite getp_clone. cbv zeta. fold k tv0. cbn [node_eqb].
+    rewrite N.eqb_refl. destruct (is_transport T tv0); cbn [andb p_def]; [|reflexivity].
+    destruct (N.eqb name name_transport) eqn:En.
+    - apply N.eqb_eq in En. subst name. rewrite assocN_updN_same. reflexivity.
+    - apply N.eqb_neq in En. rewrite assocN_updN_other by exact En. reflexivity. }
+  split; [|split].
+  - intros name Hne. unfold get. rewrite !provider_simple by assumption.
+    unfold mres. rewrite Hcurk. change (cur st c) with (tof tv0). unfold tof.
     change (has_def T (NC k) name) with (has_def T (NC c) name).
-    assert (D1 : defined (clone T st c) (NC k) name = defined st (NC c) name).
-    { unfold Model.defined. rewrite getp_clone. cbv zeta. fold k. cbn [node_eqb].
-      rewrite andb_false_r, N.eqb_refl. reflexivity. }
+    apply N.eqb_neq in Hne.
     destruct (has_def T (NC c) name) eqn:Hd.
-    + unfold pget. cbn [defs_of]. rewrite D1. reflexivity.
-    + destruct (cur st c) as [i|] eqn:Ec.
-      * change (has_def T (NT k i) name) with (has_def T (NT c i) name).
-        destruct (has_def T (NT c i) name).
+    + unfold pget. cbn [defs_of]. rewrite Dk, Hne, andb_false_r. reflexivity.
+    + destruct (is_transport T tv0) eqn:Et.
+      * unfold tnode. cbn [tidx].
+        change (has_def T (NT k (snd tv0 mod TW)) name)
+          with (has_def T (NT (snd tv0 / TW) (snd tv0 mod TW)) name).
+        destruct (has_def T (NT (snd tv0 / TW) (snd tv0 mod TW)) name).
         -- unfold pget. cbn [defs_of].
-           assert (D2 : defined (clone T st c) (NT k i) name = defined st (NT c i) name).
-           { unfold cur in Ec. unfold Model.defined. rewrite getp_clone. cbv zeta. fold k.
-             change (Model.defined T st (NC c) name_transport) with (defined st (NC c) name_transport).
-             destruct (is_transport T (defined st (NC c) name_transport)); [|discriminate].
-             inversion Ec; subst i. rewrite node_eqb_refl. reflexivity. }
+           assert (D2 : defined (clone T st c) (NT k (snd tv0 mod TW)) name
+                        = defined st (NT (snd tv0 / TW) (snd tv0 mod TW)) name).
+           { unfold Model.defined. rewrite getp_clone. cbv zeta. fold k tv0. rewrite Et.
+             unfold tnode. cbn [tidx]. rewrite node_eqb_refl. reflexivity. }
            rewrite D2. reflexivity.
-        -- unfold pget. cbn [defs_of]. rewrite D1. reflexivity.
-      * unfold pget. cbn [defs_of]. rewrite D1. reflexivity.
-  - intros m Hm. apply get_ext; try assumption.
-    intros x Hx. rewrite getp_clone. cbv zeta. fold k.
-    assert (owner x <> k) by (unfold k; lia).
-    rewrite (node_eqb_neq x (NT k _)), andb_false_r by (intro; subst x; cbn in *; congruence).
-    rewrite (node_eqb_neq x (NC k)) by (intro; subst x; cbn in *; congruence).
-    reflexivity.
+        -- unfold pget. cbn [defs_of]. rewrite Dk, Hne, andb_false_r. reflexivity.
+      * unfold pget. cbn [defs_of]. rewrite Dk. reflexivity.
+  - intros tv Htv.
+    assert (tv = tv0).
+    { unfold get in Htv. rewrite provider_simple in Htv by assumption. unfold mres in Htv.
+      rewrite has_transport in Htv. unfold pget in Htv. cbn [defs_of] in Htv.
+      destruct transport_def as [d Hd]. rewrite Hd in Htv. inversion Htv. reflexivity. }
+    subst tv.
+    assert (G : get T (clone T st c) (NC k) name_transport
+                = OVal (defined (clone T st c) (NC k) name_transport)).
+    { unfold get. rewrite provider_simple by assumption. unfold mres. rewrite has_transport.
+      unfold pget. cbn [defs_of]. destruct transport_def as [d Hd]. rewrite Hd. reflexivity. }
+    rewrite G, Dk, N.eqb_refl, andb_true_r, Hcurk.
+    destruct (is_transport T tv0); [split; reflexivity|reflexivity].
+  - intros m name Hm. unfold get. rewrite !provider_simple by assumption.
+    assert (Hmres : mres (clone T st c) m name = mres st m name).
+    { unfold mres. destruct (has_def T m name); [reflexivity|]. destruct m as [c1|a i].
+      - rewrite cur_clone. cbn in Hm. assert (N.eqb c1 (nextc st) = false) by (apply N.eqb_neq; lia).
+        rewrite H. reflexivity.
+      - rewrite holder_clone_old by assumption. reflexivity. }
+    rewrite Hmres. unfold pget. destruct (find_def _ name); [|reflexivity].
+    unfold Model.defined. rewrite getp_clone_old; [reflexivity|].
+    apply owner_mres_lt; assumption.
 Qed.
 
 (* ------------------------------------------------------------------ *)
-(* layer 9: an accepted assignment is what the next read returns        *)
+(* layer 10: an accepted assignment is what the next read returns and   *)
+(* what the transport uses; released transports                         *)
 (* ------------------------------------------------------------------ *)
+
+Lemma s_cur_nt ss c t : s_cur T ss c = Some t -> exists a i, t = NT a i.
+Proof. unfold s_cur. destruct (is_transport T _); [|discriminate]. intro H; inversion H. unfold tnode. eauto. Qed.
 
 Lemma sset_sget_client ss c name v ss' :
   sset T false ss (NC c) name v = (ss', OOk) ->
@@ -997,29 +1453,166 @@ Proof.
   destruct (has_def T (NC c) name) eqn:Hd.
   - inversion Er; subst m. cbn [defs_of] in Ed. split; [auto|].
     rewrite sval_sput, node_eqb_refl, N.eqb_refl. reflexivity.
-  - assert (Hc : s_cur T (sput ss m name (nvl d v)) c = s_cur T ss c).
-    { destruct (s_cur T ss c) as [i|] eqn:Ec; [|discriminate].
-      destruct (has_def T (NT c i) name); [|discriminate]. inversion Er; subst m.
-      unfold s_cur in *. rewrite sval_sput. cbn [node_eqb andb]. exact Ec. }
-    rewrite Hc. destruct (s_cur T ss c) as [i|]; [|discriminate].
-    destruct (has_def T (NT c i) name) eqn:Hd2; [|discriminate]. inversion Er; subst m.
-    cbn [defs_of] in Ed. split; [auto|].
+  - destruct (s_cur T ss c) as [t|] eqn:Ec; [|discriminate].
+    destruct (s_cur_nt _ _ _ Ec) as (a & i & ->).
+    destruct (has_def T (NT a i) name) eqn:Hd2; [|discriminate]. inversion Er; subst m.
+    assert (Hc : s_cur T (sput ss (NT a i) name (nvl d v)) c = Some (NT a i)).
+    { unfold s_cur in *. rewrite sval_sput. cbn [node_eqb andb]. exact Ec. }
+    rewrite Hc, Hd2. cbn [defs_of] in Ed. split; [auto|].
     rewrite sval_sput, node_eqb_refl, N.eqb_refl. reflexivity.
 Qed.
 
+Lemma last_step_pair ops o st' r :
+  noshare T (ops ++ [o]) = true ->
+  step T (fst (run T (init T) ops)) o = (st', r) ->
+  exists ss ss', Pair (fst (run T (init T) ops)) ss /\ sstep T false ss o = (ss', r) /\ Pair st' ss'.
+Proof.
+  intros HG E. unfold noshare in HG. rewrite noshare_from_app in HG. apply andb_true_iff in HG as [G1 G2].
+  destruct (reach_pair ops G1) as [HI HR].
+  cbn [noshare_from] in G2. rewrite andb_true_r in G2. apply negb_true_iff in G2.
+  destruct (step_refine _ _ _ _ _ HI HR G2 E) as (ss' & E' & HI' & HR').
+  exists (fst (srun T false (sinit T) ops)), ss'. unfold Pair. auto.
+Qed.
+
 Lemma set_then_get_l ops c name v st' :
+  noshare T (ops ++ [St (NC c) name v]) = true ->
   let st := fst (run T (init T) ops) in
-  c < nextc st ->
   step T st (St (NC c) name v) = (st', OOk) ->
   exists d, (find_def (cdefs T) name = Some d \/ find_def (tdefs T) name = Some d)
             /\ get T st' (NC c) name = OVal (nvl d v).
 Proof.
-  intros st Hc E.
-  destruct (run_reach ops (init T) init_reach) as [HI [ss HR]]. fold st in HI, HR.
-  destruct (step_refine _ _ _ _ _ HI HR E) as (ss' & E' & HI' & HR').
+  intros HG st E.
+  destruct (last_step_pair ops _ st' OOk HG E) as (ss & ss' & [HI HR] & E' & [HI' HR']).
   rewrite (get_refine _ _ _ _ HI' HR').
-  cbn [sstep] in E'. destruct HR as [Hn _]. rewrite <- Hn in E'. cbn [owner] in E'.
-  apply N.ltb_lt in Hc. rewrite Hc in E'. eapply sset_sget_client; eauto.
+  cbn [sstep] in E'. destruct (_ && _); [|discriminate]. eapply sset_sget_client; eauto.
+Qed.
+
+Lemma sset_via_client_tdef ss c name v d ss' :
+  find_def (tdefs T) name = Some d ->
+  sset T false ss (NC c) name v = (ss', OOk) ->
+  is_transport T (sval T ss (NC c) name_transport) = true
+  /\ ss' = sput ss (tnode (sval T ss (NC c) name_transport)) name (nvl d v).
+Proof.
+  intros Hd. unfold sset.
+  assert (Hnc : has_def T (NC c) name = false).
+  { unfold has_def. cbn [defs_of]. destruct (find_def (cdefs T) name) eqn:X; [|reflexivity].
+    exfalso. eapply names_disjoint; eauto. }
+  set (tv := sval T ss (NC c) name_transport).
+  assert (Er : resolve T ss (NC c) name = if is_transport T tv then Some (tnode tv) else None).
+  { unfold resolve. rewrite Hnc. unfold s_cur. fold tv. destruct (is_transport T tv); [|reflexivity].
+    unfold tnode, has_def. cbn [defs_of]. rewrite Hd. reflexivity. }
+  rewrite Er. destruct (is_transport T tv); [|discriminate].
+  unfold tnode at 1. cbn [defs_of]. rewrite Hd.
+  destruct (validate T d v); cbn [negb]; [|discriminate].
+  intro H; inversion H. split; reflexivity.
+Qed.
+
+(* a transport option assigned through the client is the value the client's
+   transport object reads from its own options, i.e. hands to urllib *)
+Lemma send_uses_what_was_set_l ops c name v d st' :
+  noshare T (ops ++ [St (NC c) name v]) = true ->
+  let st := fst (run T (init T) ops) in
+  find_def (tdefs T) name = Some d ->
+  step T st (St (NC c) name v) = (st', OOk) ->
+  exists tv, get T st' (NC c) name_transport = OVal tv /\ is_transport T tv = true
+             /\ get T st' (tnode tv) name = OVal (nvl d v).
+Proof.
+  intros HG st Hd E.
+  destruct (last_step_pair ops _ st' OOk HG E) as (ss & ss' & [HI HR] & E' & [HI' HR']).
+  cbn [sstep] in E'. destruct (_ && _); [|discriminate].
+  destruct (sset_via_client_tdef ss c name v d ss' Hd E') as [Et Es].
+  set (tv := sval T ss (NC c) name_transport) in *.
+  exists tv. rewrite !(get_refine _ _ _ _ HI' HR'). subst ss'.
+  split; [|split; [exact Et|]].
+  - unfold sget, resolve. rewrite has_transport, sval_sput. unfold tnode. cbn [node_eqb andb]. reflexivity.
+  - assert (Ht : has_def T (tnode tv) name = true)
+      by (unfold has_def, tnode; cbn [defs_of]; rewrite Hd; reflexivity).
+    unfold sget, resolve. rewrite Ht, sval_sput, node_eqb_refl, N.eqb_refl. reflexivity.
+Qed.
+
+(* the options of a transport object no client holds (never used, or
+   released when the client's transport was replaced) are linked to nothing:
+   they read their own values and no client option *)
+Lemma unheld_transport_l ops a i :
+  noshare T ops = true ->
+  let st := fst (run T (init T) ops) in
+  (forall c, cur st c <> Some (NT a i)) ->
+  links st (NT a i) = []
+  /\ forall name, get T st (NT a i) name =
+                  if has_def T (NT a i) name then OVal (defined st (NT a i) name) else OAttrErr.
+Proof.
+  intros HG st Hno. destruct (reach_pair ops HG) as [HI _]. fold st in HI.
+  split; [apply HI; exact Hno|].
+  intro name. unfold get. rewrite provider_simple by exact HI. unfold mres.
+  destruct (has_def T (NT a i) name) eqn:Hd.
+  - unfold pget. unfold has_def in Hd. destruct (find_def _ name); [reflexivity|discriminate].
+  - destruct (holder st (NT a i)) as [c|] eqn:Eh.
+    + apply (holder_cur _ _ _ HI) in Eh. exfalso. exact (Hno c Eh).
+    + unfold pget. unfold has_def in Hd. destruct (find_def _ name); [discriminate|reflexivity].
+Qed.
+
+(* replacing client c's transport releases the old one: no client holds it *)
+Lemma replace_releases_l ops c v st' t0 :
+  noshare T (ops ++ [St (NC c) name_transport v]) = true ->
+  let st := fst (run T (init T) ops) in
+  step T st (St (NC c) name_transport v) = (st', OOk) ->
+  cur st c = Some t0 -> cur st' c <> Some t0 ->
+  forall c1, cur st' c1 <> Some t0.
+Proof.
+  intros HG st E Hc Hne c1 Hc1.
+  destruct (last_step_pair ops _ st' OOk HG E) as (ss & ss' & [HI HR] & E' & [HI' HR']).
+  fold st in HI, HR.
+  destruct (N.eq_dec c1 c) as [->|Hd]; [contradiction|].
+  cbn [sstep] in E'. destruct (_ && _); [|discriminate].
+  unfold sset, resolve in E'. rewrite has_transport in E'. cbn [defs_of] in E'.
+  destruct (find_def (cdefs T) name_transport) as [d|]; [|discriminate].
+  destruct (validate T d v); cbn [negb] in E'; [|discriminate].
+  inversion E'; subst ss'; clear E'.
+  rewrite (cur_R st' _ c1 HR') in Hc1. unfold s_cur in Hc1. rewrite sval_sput in Hc1.
+  cbn [node_eqb] in Hc1. apply N.eqb_neq in Hd. rewrite Hd in Hc1. cbn [andb] in Hc1.
+  fold (s_cur T ss c1) in Hc1. rewrite <- (cur_R st ss c1 HR) in Hc1.
+  apply N.eqb_neq in Hd. apply Hd. exact (cur_unique st c1 c t0 HI Hc1 Hc).
+Qed.
+
+(* a transport object nobody holds can be given to any client (the client it
+   was made for, or another one): the assignment is accepted, the client is
+   linked to it and reads the transport's own values *)
+Lemma handover_l ops c v d :
+  noshare T ops = true ->
+  let st := fst (run T (init T) ops) in
+  c < nextc st -> owner (tnode v) < nextc st ->
+  find_def (cdefs T) name_transport = Some d -> validate T d v = true ->
+  is_transport T v = true -> is_none v = false ->
+  (forall c1, cur st c1 <> Some (tnode v)) ->
+  exists st', step T st (St (NC c) name_transport v) = (st', OOk)
+    /\ INV st' /\ cur st' c = Some (tnode v)
+    /\ forall name, has_def T (tnode v) name = true ->
+                    get T st' (NC c) name = OVal (defined st (tnode v) name).
+Proof.
+  intros HG st Hc Hv Hd Hval Ht Hnn Hfree. destruct (reach_pair ops HG) as [HI _]. fold st in HI.
+  cbn [step]. unfold exists_node, vexists, exists_node. cbn [owner].
+  apply N.ltb_lt in Hc. apply N.ltb_lt in Hv. rewrite Hc, Hv, orb_true_r. cbn [andb].
+  rewrite provider_simple by exact HI. unfold mres. rewrite has_transport.
+  destruct (pset T st (NC c) name_transport v) as [st' o] eqn:E.
+  apply N.ltb_lt in Hc.
+  destruct (set_transport_inv st c d v st' o HI Hc Hd Hval) as (Ho & HI' & D); [| |exact E|].
+  { unfold vexists, exists_node. rewrite Hv. apply orb_true_r. }
+  { intros _ c1 Hc1. exfalso. exact (Hfree c1 Hc1). }
+  subst o. exists st'. split; [reflexivity|]. split; [exact HI'|].
+  assert (Hn : nvl d v = v) by (unfold nvl; rewrite Hnn; reflexivity).
+  destruct D as [D1 _].
+  assert (Hcur : cur st' c = Some (tnode v)).
+  { unfold cur. rewrite (defined_ext _ _ _ _ (D1 (NC c))), defined_set_defined, node_eqb_refl, N.eqb_refl.
+    cbn [andb]. rewrite Hn, Ht. reflexivity. }
+  split; [exact Hcur|].
+  intros name Hhd. unfold get. rewrite provider_simple by exact HI'. unfold mres. rewrite Hcur, Hhd.
+  assert (Hnc : has_def T (NC c) name = false).
+  { destruct (has_def T (NC c) name) eqn:X; [|reflexivity].
+    assert (Y : has_def T (tnode v) name = false) by exact (has_def_client_transport c name X).
+    congruence. }
+  rewrite Hnc. unfold pget. unfold has_def in Hhd. destruct (find_def _ name); [|discriminate].
+  rewrite (defined_ext _ _ _ _ (D1 (tnode v))), defined_set_defined. unfold tnode at 1. cbn [node_eqb andb].
+  reflexivity.
 Qed.
 
 End Refine.
@@ -1034,8 +1627,8 @@ Variable T : tables.
 (* an operation that raised AttributeError changed nothing *)
 Lemma attr_error_no_effect_l st o st' : step T st o = (st', OAttrErr) -> st' = st.
 Proof.
-  destruct o as [n name v|n name|n names|c|c]; cbn [step]; try (intro H; inversion H; reflexivity).
-  - destruct (exists_node st n); [|intro H; inversion H; reflexivity].
+  destruct o as [n name v|n name|n names|c|n tag|c]; cbn [step]; try (intro H; inversion H; reflexivity).
+  - destruct (exists_node st n && vexists T st v); [|intro H; inversion H; reflexivity].
     unfold pset. destruct (find_def _ name) as [d|]; [|intro H; inversion H; reflexivity].
     destruct (validate T d v); cbn [negb]; [|intro H; inversion H; reflexivity].
     destruct (d_linker d); [|intro H; inversion H].
@@ -1048,12 +1641,12 @@ Qed.
    definition has (unknown name), assigned through any existing object in
    ANY state: AttributeError, state unchanged *)
 Lemma invalid_raises_l st n name v :
-  exists_node st n = true ->
+  exists_node st n = true -> vexists T st v = true ->
   (forall d, find_def (cdefs T) name = Some d \/ find_def (tdefs T) name = Some d ->
              validate T d v = false) ->
   step T st (St n name v) = (st, OAttrErr).
 Proof.
-  intros He H. cbn [step]. rewrite He. unfold pset.
+  intros He Hv H. cbn [step]. rewrite He, Hv. cbn [andb]. unfold pset.
   destruct (find_def (defs_of T (provider T st name n)) name) as [d|] eqn:Ed; [|reflexivity].
   rewrite (H d); [reflexivity|].
   destruct (provider T st name n); cbn [defs_of] in Ed; auto.
